@@ -1,48 +1,69 @@
 """Python AST -> effect IR (C19).  Regenerates, from /repo's current source, the program that
 `PewModel/Effects.lean` analyses.  See DESIGN.md 5.19.
 
-IR (JSON): ["skip"] | ["bind", x, src] | ["write", x] | ["ret", x] | ["seq", [s...]] |
-           ["branch", s, t] | ["loop", s];   src = ["param", i] | ["fresh"] | ["alias", [y...]] | ["unknown"]
+IR (JSON): ["skip"] | ["bind", x, src] | ["write", x] | ["ret", x] | ["store", x, label, y] | ["seq", [s...]] |
+           ["branch", s, t] | ["loop", s]
+           src = ["param", i] | ["fresh", site] | ["alias", [y...]] | ["load", [y...], label, site] | ["reach", [y...]] |
+                 ["unknown"]
 
-A parameter and everything reachable from it (elements, attributes, dict values, views) is ONE
-region.  The translation over-approximates: whatever it cannot classify becomes `unknown` plus a
-write to every argument.  Calls to other pewlib functions/methods are inlined.
+Every Python name is ONE IR variable holding an object.  A parameter and everything reachable from it when the call
+starts (elements, attributes, dict values, views) is ONE object (a region).  Objects created by the function are
+objects of an allocation site; what a container / instance holds is a labelled heap edge (`store`), what is taken out
+of it a `load` (label 0 = any slot: elements, `setattr`, `vars(o)[k]`; attribute names get their own labels).  The
+heap is shared by all names of an object, so a reference stored through one name is seen through every other, through
+by-reference parameters of inlined callees, through receivers that are temporaries, and through containers that hold
+the container (all of that is done by the Lean analysis `ana`, proved sound for every execution of the IR).
 
-Besides the regions, a value may carry a TAG, a flow-sensitive fact about its library type (kept with the
-`arr` facts, intersected at joins): ElementTree objects, executors / futures, instances of a pewlib
-class (from constructors and trusted annotations).  Tags only select which method table applies to a
-receiver (ElementTree's pure accessors, `submit`, the class hierarchy's own methods); an untagged
-receiver is dispatched by name as before, and a method outside every table stays an unknown call.
-Function values: lambdas and functions handed to sorted/min/max/map/filter/list.sort are applied to the
-items in a loop; names that can only hold pewlib functions are called as a branch over them; any
-other function-valued parameter or variable is an unknown call.
+FAIL-CLOSED RULE: whatever the translator cannot classify becomes an UNKNOWN CALL: everything reachable from any
+argument (and from the callee object: a closure holds its free variables, a bound method its receiver) may be written
+and may be stored into everything else reachable from them, and the result may be anything.  A construct that cannot
+even be expressed that way marks the whole function `unknown` (every parameter may be written and aliased).  After
+translation the IR is checked for definite assignment: a read of a variable that is not bound on every path would
+have no execution in `Pew.Effects.Exec`; such a function is replaced by the all-unknown program.
+
+Besides the objects, a value may carry a TAG / type fact (flow-sensitive, intersected at joins): plain ndarray /
+scalar / str (`arr`: holds no references, subscripts are views), builtin container (`cont`), ElementTree objects,
+executors / futures, instances of a pewlib class (from constructors and trusted annotations).  Type facts select which
+method table applies to a receiver and whether a subscript store keeps a reference; annotations of the inventoried
+functions' parameters are asserted (`isinstance`) on every dynamic call of the harness.
+Function values: lambdas and functions handed to sorted/min/max/map/filter/list.sort/Executor.map are applied to the
+items in a loop; names that can only hold pewlib functions, local functions or lambdas are called as a branch over
+them; any other function value is a container of its free variables and calling it is an unknown call.
 """
 from __future__ import annotations
 
 import ast
+import inspect
 from pathlib import Path
 
 # ----------------------------------------------------------------------------- tables (trusted)
-# NumPy / stdlib callables returning FRESH memory and writing nothing (keyed by dotted name suffix)
+# Reviewed against the NumPy installed in /venv (2.x).  A function is FRESH only when EVERY call of it returns newly
+# allocated memory (or a scalar / immutable) and writes nothing; positional / keyword `out` arguments are handled
+# separately (`out_positions`), as are the keywords that turn a copy into a view or an in-place operation
+# (`copy=`, `overwrite_input=`, `n=0`, `inplace=`): see `Scope.external`.
 FRESH_FUNCS = set("""
 np.array np.empty np.zeros np.ones np.full np.empty_like np.zeros_like np.ones_like np.full_like np.arange np.linspace
-np.stack np.vstack np.hstack np.dstack np.concatenate np.append np.insert np.delete np.repeat np.tile np.pad np.copy
+np.logspace np.geomspace np.eye np.identity
+np.stack np.vstack np.hstack np.dstack np.column_stack np.concatenate np.append np.insert np.delete np.repeat np.tile
+np.pad np.copy
 np.isnan np.isinf np.isfinite np.isin np.all np.any np.sum np.nansum np.mean np.nanmean np.median np.nanmedian np.std
 np.nanstd np.var np.nanvar np.amin np.amax np.min np.max np.nanmin np.nanmax np.argmin np.argmax np.argsort np.sort
 np.cumsum np.cumprod np.prod np.diff np.abs np.absolute np.sqrt np.exp np.log np.log1p np.log2 np.log10 np.power np.sign
-np.round np.around np.floor np.ceil np.clip np.where np.nonzero np.flatnonzero np.count_nonzero np.unravel_index
-np.ravel_multi_index np.logical_and np.logical_or np.logical_not np.logical_xor np.maximum np.minimum np.add np.subtract
-np.multiply np.divide np.maximum.accumulate np.minimum.accumulate np.add.reduce np.add.reduceat np.lcm np.lcm.reduce
+np.round np.around np.floor np.ceil np.clip np.where np.nonzero np.flatnonzero np.argwhere np.count_nonzero
+np.unravel_index np.ravel_multi_index np.logical_and np.logical_or np.logical_not np.logical_xor np.maximum np.minimum
+np.add np.subtract np.multiply np.divide np.true_divide np.floor_divide np.mod np.remainder np.negative np.square
+np.hypot np.arctan2 np.sin np.cos np.tan np.greater np.less np.equal np.not_equal np.greater_equal np.less_equal
+np.maximum.accumulate np.minimum.accumulate np.add.reduce np.add.reduceat np.add.accumulate np.lcm np.lcm.reduce
 np.gcd np.searchsorted np.histogram np.cov np.corrcoef np.convolve np.correlate np.unique np.iscomplexobj np.isscalar
 np.fft.rfft np.fft.irfft np.fft.rfftn np.fft.irfftn np.fft.fft np.fft.ifft np.fft.fftn np.fft.ifftn np.fft.fftshift
+np.fft.ifftshift np.fft.fftfreq np.fft.rfftfreq
 np.polynomial.polynomial.polyfit np.polyfit np.polyval np.dot np.matmul np.outer np.cross np.interp np.digitize
-np.bincount np.percentile np.quantile np.nanpercentile np.genfromtxt np.loadtxt np.load np.savez np.savez_compressed
-np.save np.savetxt np.fromfile np.frombuffer np.dtype np.uint64 np.uint32 np.uint8 np.int64 np.int32 np.float64
+np.bincount np.percentile np.quantile np.nanpercentile np.nanquantile np.genfromtxt np.loadtxt np.load np.savez
+np.savez_compressed np.save np.savetxt np.fromfile np.dtype np.uint64 np.uint32 np.uint8 np.int64 np.int32 np.float64
 np.float32 np.bool_ np.random.permutation np.random.random np.random.normal np.random.default_rng np.allclose
-np.array_equal np.shares_memory np.meshgrid np.indices np.trim_zeros np.lib.recfunctions.drop_fields
-np.lib.recfunctions.append_fields np.lib.recfunctions.merge_arrays np.lib.recfunctions.unstructured_to_structured
-np.lib.recfunctions.structured_to_unstructured
-len int float str bool complex abs round min max sum any all isinstance issubclass hasattr callable range slice repr
+np.array_equal np.shares_memory np.may_share_memory np.meshgrid np.indices np.lib.recfunctions.drop_fields
+np.lib.recfunctions.append_fields
+len int float str bool complex abs round any all isinstance issubclass hasattr callable range slice repr
 print format ord chr hash id divmod pow type bytes bytearray open
 ValueError TypeError KeyError IndexError IOError OSError RuntimeError NotImplementedError AttributeError StopIteration
 UserWarning DeprecationWarning Exception AssertionError FileNotFoundError ZeroDivisionError
@@ -53,56 +74,100 @@ re.findall struct.pack struct.unpack sys.byteorder
 int.from_bytes np.take_along_axis np.trapezoid np.trapz np.logical_or.reduce np.logical_and.reduce np.argpartition
 np.nanargmax np.nanargmin np.uint16 np.int8 np.int16
 """.split())
-# int.from_bytes builds an int from a bytes object; take_along_axis gathers by fancy indexing (a new array);
-# trapezoid / ufunc.reduce / argpartition / nanarg* return new arrays or scalars (an `out=` keyword is a write, see `call`)
+# np.diff(x, n=0) returns x itself, np.meshgrid(copy=False) views, np.array(copy=False|None) / np.nan_to_num(copy=False)
+# the argument, np.median/percentile/quantile(overwrite_input=True) sort the argument in place: keyword rules below.
+# NOT here (they were, wrongly): np.trim_zeros (a slice), rfn.structured_to_unstructured / unstructured_to_structured /
+# merge_arrays (views when possible), np.frombuffer (a view of the buffer), min / max / sum (an element / the start value)
 
-# callables whose result may be a VIEW / shares elements with (some of) its arguments; write nothing
+# callables whose result may be a VIEW of / the same object as (one of) their arguments; they write nothing
 VIEW_FUNCS = set("""
-np.asarray np.asanyarray np.ascontiguousarray np.atleast_1d np.atleast_2d np.atleast_3d np.reshape np.ravel np.swapaxes
-np.flip np.fliplr np.flipud np.squeeze np.transpose np.moveaxis np.rollaxis np.expand_dims np.broadcast_to np.real
-np.imag np.diag np.diagonal np.lib.stride_tricks.as_strided np.lib.stride_tricks.sliding_window_view
-np.lib.recfunctions.rename_fields np.split np.array_split np.rot90 np.take np.nan_to_num np.require
-next getattr
+np.asarray np.asanyarray np.ascontiguousarray np.asfortranarray np.atleast_1d np.atleast_2d np.atleast_3d np.reshape
+np.ravel np.swapaxes np.flip np.fliplr np.flipud np.squeeze np.transpose np.moveaxis np.rollaxis np.expand_dims
+np.broadcast_to np.broadcast_arrays np.real np.imag np.diag np.diagonal np.lib.stride_tricks.as_strided
+np.lib.stride_tricks.sliding_window_view np.lib.stride_tricks.broadcast_to
+np.lib.recfunctions.rename_fields np.lib.recfunctions.structured_to_unstructured
+np.lib.recfunctions.unstructured_to_structured np.lib.recfunctions.merge_arrays np.lib.recfunctions.repack_fields
+np.split np.array_split np.hsplit np.vsplit np.dsplit np.rot90 np.take np.nan_to_num np.require np.trim_zeros
+np.frombuffer np.nditer np.compress np.extract np.real_if_close np.matrix_transpose np.permute_dims memoryview
 """.split())
+VIEW_IF_KEYWORD = {"np.array": {"copy"}, "np.meshgrid": {"copy"}, "np.diff": {"n"}, "np.copy": {"subok"}}
+# keyword (when present and not the literal False) that makes the call write its first argument
+WRITE_IF_KEYWORD = {"np.median": "overwrite_input", "np.nanmedian": "overwrite_input", "np.percentile": "overwrite_input",
+                    "np.nanpercentile": "overwrite_input", "np.quantile": "overwrite_input",
+                    "np.nanquantile": "overwrite_input"}
 
-# callables returning a NEW container that holds references to (the elements of) their arguments
-CONTAINER_FUNCS = set("""
-tuple list dict set frozenset sorted reversed enumerate zip iter copy.copy map filter dict.values dict.keys dict.items vars
+# result may be ANYTHING reachable from the arguments (an element, an attribute, a default), or a new value built from it
+DEEP_FUNCS = set("min max sum next getattr".split())
+
+# callables returning a NEW container that holds the ELEMENTS of their positional arguments (shallow copies) ...
+ELEMENT_CONTAINER_FUNCS = set("""
+tuple list dict set frozenset sorted reversed iter copy.copy filter collections.OrderedDict collections.deque
+itertools.chain itertools.islice itertools.cycle itertools.tee dict.values dict.keys
+""".split())
+# ... or new tuples of the elements of their arguments (one more level)
+TUPLE_CONTAINER_FUNCS = set("""
+zip enumerate itertools.product itertools.zip_longest itertools.combinations itertools.permutations
+itertools.combinations_with_replacement dict.items itertools.pairwise
 """.split())
 
 # callables that write to some of their arguments: name -> indices of written positional args
 WRITE_FUNCS = {
     "np.copyto": [0], "np.put": [0], "np.place": [0], "np.putmask": [0], "np.fill_diagonal": [0],
-    "np.random.shuffle": [0], "np.add.at": [0], "np.subtract.at": [0], "np.multiply.at": [0],
-    "np.maximum.at": [0], "np.minimum.at": [0], "setattr": [0], "delattr": [0], "random.shuffle": [0],
+    "np.put_along_axis": [0], "np.random.shuffle": [0], "np.add.at": [0], "np.subtract.at": [0], "np.multiply.at": [0],
+    "np.divide.at": [0], "np.maximum.at": [0], "np.minimum.at": [0], "delattr": [0], "random.shuffle": [0],
+    "np.ndarray.sort": [0], "np.ndarray.fill": [0], "list.sort": [0], "list.append": [0], "heapq.heapify": [0],
+    "heapq.heappop": [0],
 }
+# ... and store (references to) the other arguments in it
+STORE_FUNCS = {"setattr": (0, [2]), "heapq.heappush": (0, [1]), "list.append": (0, [1])}
 
 # methods (by name) that mutate their receiver
 INPLACE_METHODS = set("""append extend insert pop popitem remove clear update setdefault sort reverse fill resize put
-itemset setflags setfield byteswap partition sort add discard __setitem__ __delitem__ write writelines truncate seek
+itemset setflags setfield byteswap partition add discard __setitem__ __delitem__ write writelines truncate seek
+appendleft extendleft popleft rotate intersection_update difference_update symmetric_difference_update
+move_to_end sort_values
 """.split())
-# `sort`, `fill`, ... on ndarray are in-place too; file methods write their own (fresh) file object
+# `sort`, `fill`, ... on ndarray are in-place too; file methods write their own file object (its position)
 
-# in-place methods that store (references to) their arguments in the receiver
-STORING_METHODS = set("append extend insert update setdefault add __setitem__".split())
+# in-place methods that store their arguments themselves / the elements of their arguments in the receiver
+STORING_SELF = set("append insert setdefault add appendleft __setitem__ fill put itemset setfield".split())
+STORING_ELEMS = set("extend update extendleft intersection_update difference_update symmetric_difference_update".split())
+# methods that write an ARGUMENT (Generator.shuffle(x), file.readinto(buf)): name -> written positional args
+ARG_WRITING_METHODS = {"shuffle": [0], "readinto": [0], "readinto1": [0], "recv_into": [0], "permuted": []}
 
-# methods (by name) returning fresh values and not touching the receiver
-FRESH_METHODS = set("""copy astype sum mean std var min max any all argmin argmax argsort cumsum cumprod prod round
-clip conj conjugate nonzero tolist tobytes tostring item dot trace ptp searchsorted repeat flatten nansum
+# methods (by name) returning fresh values and not touching the receiver (ndarray reductions / str / Path / file /
+# re.Match methods).  A positional or keyword `out` of the ndarray ones is a write: METHOD_OUT_POS
+FRESH_METHODS = set("""sum mean std var min max any all argmin argmax argsort cumsum cumprod prod round
+clip conj conjugate nonzero tobytes tostring dot trace ptp searchsorted repeat flatten nansum
 split rsplit strip lstrip rstrip replace join format lower upper startswith endswith find rfind index count encode
-decode isdigit isalpha title capitalize zfill partition rpartition splitlines casefold
+decode isdigit isalpha title capitalize zfill rpartition splitlines casefold
 bit_length is_integer as_integer_ratio total_seconds hex
 exists is_dir is_file with_suffix with_name joinpath resolve open read_text read_bytes glob iterdir mkdir stat
 read readline readlines close flush tell
 group groups start end span match search fullmatch
 """.split())
 # `match search fullmatch`: compiled-pattern methods; pure, the match object keeps only the (immutable) searched string
-# NOTE: `.copy()` is assumed to be ndarray.copy (a deep, fresh copy); the dynamic snapshot run checks this
+# number of positional arguments of an ndarray method BEFORE its `out` parameter
+METHOD_OUT_POS = {"clip": 2, "round": 1, "cumsum": 2, "cumprod": 2, "sum": 2, "mean": 2, "prod": 2, "std": 2, "var": 2,
+                  "min": 1, "max": 1, "any": 1, "all": 1, "argmin": 1, "argmax": 1, "dot": 1, "trace": 4, "ptp": 1,
+                  "conj": 0, "conjugate": 0, "take": 2, "compress": 2, "choose": 1}
+# methods whose result is the receiver or a shallow copy of it, depending on what the receiver is
+COPY_METHODS = {"copy", "astype", "tolist", "item", "__copy__"}
 
 # methods (by name) returning a view / an element of the receiver
-VIEW_METHODS = set("""reshape ravel view transpose swapaxes squeeze diagonal take get items keys values
-__getitem__ real imag T flat
+VIEW_METHODS = set("""reshape ravel view transpose swapaxes squeeze diagonal take get
+__getitem__ real imag T flat getfield newbyteorder result __iter__ __next__ __enter__ compress
 """.split())
+# dict views: new containers of the elements / of (key, value) tuples
+ELEMENT_VIEW_METHODS = {"values", "keys"}
+TUPLE_VIEW_METHODS = {"items"}
+# attributes that are views of an array / hold the receiver itself
+VIEW_ATTRS = {"T", "flat", "real", "imag", "base", "data", "mT", "ctypes", "__dict__", "__self__", "__array_interface__"}
+# attributes that are new immutable values whatever the receiver is
+FRESH_ATTRS = {"shape", "ndim", "size", "dtype", "itemsize", "nbytes", "strides", "flags", "__name__", "__class__",
+               "__doc__", "__module__", "__qualname__"}
+# ... and when the receiver holds no references (str / Path / dtype)
+FRESH_ATTRS_OF_PLAIN = {"names", "name", "suffix", "stem", "parent", "parts", "fields", "char", "kind", "type"}
 
 # external constructors / parsers whose result is a FRESH object of a known library type (the tag selects the
 # method rules below; nothing of the argument is written: parsing only reads its path / file argument)
@@ -127,7 +192,7 @@ def loaded_tag(tag):
 
 
 def container_tag(tag):
-    if isinstance(tag, tuple):
+    if isinstance(tag, tuple) or tag == "arr":
         return ("list", tag)
     return CONTAINER_TAG.get(tag)
 # Element / ElementTree methods: all pure.  `find getroot` return a part of the receiver, `findall iter iterfind` a new
@@ -144,63 +209,127 @@ HOF_KEY = {"sorted", "min", "max"}   # key=<function>; its results are only comp
 HOF_FIRST = {"map", "filter"}        # first positional argument; map's results are the new elements
 PURE_TYPES = {"str", "int", "float", "bytes", "bool", "complex"}  # `str.isdigit`, `int`, ... passed as functions
 
+# callables through which a function can reach objects / run code that its source does not name
+REFLECTION = {"eval", "exec", "globals", "locals", "compile", "__import__", "sys._getframe", "inspect.currentframe",
+              "inspect.stack", "importlib.import_module", "sys.modules", "builtins.eval", "builtins.exec"}
+
 JUMPS = (ast.Continue, ast.Break)
+WILD = 0  # heap label matching every label
+
+
+def np_object(name: str):
+    """the NumPy object a dotted table name (`np.add`, `np.lib.recfunctions.merge_arrays`) denotes, or None"""
+    if not name.startswith("np."):
+        return None
+    try:
+        import importlib
+
+        import numpy
+        obj = numpy
+        parts = name.split(".")[1:]
+        for i, p in enumerate(parts):
+            if not hasattr(obj, p):
+                obj = importlib.import_module("numpy." + ".".join(parts[: i + 1]))
+            else:
+                obj = getattr(obj, p)
+        return obj
+    except Exception:
+        return None
+
+
+_OUT_CACHE = {}
+
+
+def out_positions(name: str):
+    """positional indices of the `out` parameter(s) of a NumPy callable, read from the installed library: a ufunc's
+    outputs follow its `nin` inputs, any other function's from its signature.  None = cannot tell (then every
+    positional argument beyond the first is treated as a possible output)"""
+    if name in _OUT_CACHE:
+        return _OUT_CACHE[name]
+    obj, res = np_object(name), None
+    if obj is not None:
+        import numpy
+
+        if isinstance(obj, numpy.ufunc):
+            res = list(range(obj.nin, obj.nin + obj.nout))
+        else:
+            try:
+                ps = list(inspect.signature(obj).parameters.values())
+                res = [i for i, p in enumerate(ps) if p.name == "out"
+                       and p.kind in (p.POSITIONAL_ONLY, p.POSITIONAL_OR_KEYWORD)]
+            except (TypeError, ValueError):
+                res = None
+    _OUT_CACHE[name] = res
+    return res
+
+
+def accepts_out(name: str) -> bool:
+    """the NumPy callable has an `out` parameter (ufuncs do; others by signature; unknown signature: assume it has)"""
+    obj = np_object(name)
+    if obj is None:
+        return True
+    import numpy
+
+    if isinstance(obj, numpy.ufunc):
+        return True
+    try:
+        return "out" in inspect.signature(obj).parameters
+    except (TypeError, ValueError):
+        return True
 
 
 class Val:
     """abstract value of an expression.
-    own:   IR variables whose object the value may BE (or be a view/part of)
-    reach: IR variables whose object the value may hold references to (elements, attributes)
-    Writing through the value touches `own`; loading from it yields own+reach."""
-    __slots__ = ("own", "reach", "unknown", "arr", "tag")
+    own:     IR variables whose object the value may BE (or be a view / part of)
+    unknown: or any existing object
+    arr:     known to be a plain ndarray / scalar / str / Path (holds no references; subscripts are views)
+    cont:    known to be a builtin container (list / dict / set / tuple / iterator of one)"""
+    __slots__ = ("own", "unknown", "arr", "cont", "tag")
 
-    def __init__(self, own=(), reach=(), unknown=False, arr=False, tag=None):
+    def __init__(self, own=(), unknown=False, arr=False, cont=False, tag=None):
         self.own = frozenset(own)
-        self.reach = frozenset(reach)
         self.unknown = unknown
-        self.arr = arr  # known to be a plain ndarray / scalar / str (holds no references)
+        self.arr = arr
+        self.cont = cont and not arr
         self.tag = None if arr else tag  # library type of the value (see TAGS), None = not known
 
     def neutral(self):
-        """a constant / None / new empty container: joins with anything without changing what that is"""
-        return not self.own and not self.reach and not self.unknown and self.tag is None
+        """a constant / None: joins with anything without changing what that is"""
+        return not self.own and not self.unknown and self.tag is None and not self.cont
 
     def __or__(self, o):
-        if self.tag == o.tag or o.neutral():
+        if o.neutral():
+            return Val(self.own, self.unknown, self.arr, self.cont, self.tag)
+        if self.neutral():
+            return Val(o.own, o.unknown, o.arr, o.cont, o.tag)
+        if self.tag == o.tag:
             tag = self.tag
-        elif self.neutral():
-            tag = o.tag
         elif {self.tag, o.tag} <= {"xml", "xmlc"}:
             tag = "xmlc"
         else:
             tag = None
-        return Val(self.own | o.own, self.reach | o.reach, self.unknown or o.unknown, self.arr and o.arr, tag)
-
-    def all(self):
-        return self.own | self.reach
-
-    def loaded(self):
-        """an element / attribute / view of this value"""
-        if self.arr:
-            return Val(self.own, (), self.unknown, True)
-        return Val(self.own | self.reach, self.reach, self.unknown, False, loaded_tag(self.tag))
-
-    def container(self):
-        """a NEW container holding references to this value"""
-        return Val((), self.own | self.reach, self.unknown, False, container_tag(self.tag))
+        return Val(self.own | o.own, self.unknown or o.unknown, self.arr and o.arr, self.cont and o.cont, tag)
 
     def untagged(self):
-        return Val(self.own, self.reach, self.unknown, self.arr)
+        return Val(self.own, self.unknown, self.arr, self.cont)
 
 
 FRESH = Val(arr=True)
 
 
+def union(vals):
+    u = FRESH
+    for v in vals:
+        u = u | v
+    return u
+
+
 class Program:
     """all inventoried + helper modules, parsed"""
 
-    def __init__(self, repo: Path, modules: list[str]):
+    def __init__(self, repo: Path, modules: list[str], src: str = "src"):
         self.repo = repo
+        self.src = src      # directory under `repo` holding the packages (the regression cases live directly in theirs)
         self.mods = {}      # dotted module name -> ast.Module
         self.funcs = {}     # (module, name) -> FunctionDef
         self.classes = {}   # (module, name) -> ClassDef
@@ -212,10 +341,10 @@ class Program:
             self.load(m)
 
     def path(self, mod: str) -> Path | None:
-        p = self.repo / "src" / (mod.replace(".", "/") + ".py")
+        p = self.repo / self.src / (mod.replace(".", "/") + ".py")
         if p.exists():
             return p
-        p = self.repo / "src" / mod.replace(".", "/") / "__init__.py"
+        p = self.repo / self.src / mod.replace(".", "/") / "__init__.py"
         return p if p.exists() else None
 
     def load(self, mod: str):
@@ -393,6 +522,114 @@ class Program:
         self._ftypes[k0] = found if ok else None
         return self._ftypes[k0]
 
+    def self_classes(self, def_cls, method):
+        """the classes an object can be an exact instance of when method `method`, as defined in class `def_cls`, runs
+        with it as `self` by ordinary dispatch: `def_cls` and the loaded subclasses that inherit that definition"""
+        out = []
+        for k in self.subclasses(def_cls):
+            m = self.find_method(k, method)
+            if m is not None and m[0] == def_cls:
+                out.append(k)
+        return out or [def_cls]
+
+    def plain_for(self, classes, field):
+        """"arr" when every exact instance of one of `classes` holds a plain value (ndarray / scalar / str / Path / None)
+        in attribute `field`, ("list", t) when a builtin container of plain values (t = "arr" or again such a list), else
+        None (see Translator.infer_plain_fields)"""
+        pf = getattr(self, "plain_fields", None)
+        if not classes or pf is None:
+            return None
+        ts = {pf.get((k, field)) for k in classes}
+        return next(iter(ts)) if len(ts) == 1 else None
+
+    IMMUTABLE_CALLS = {"np.sqrt", "np.dtype", "Path", "pathlib.Path", "logging.getLogger", "re.compile", "np.float64",
+                       "np.float32", "float", "int", "str", "bytes", "frozenset", "np.exp", "np.log", "math.sqrt"}
+
+    def global_kind(self, mod, name):
+        """how a module-level name (not a function / class / import) is bound: "immutable" (constants, dtypes, paths,
+        loggers, compiled patterns), "literal" (dict / list / set / tuple literals), "mutable" (anything else), or None
+        when the module does not assign it"""
+        tree = self.mods.get(mod)
+        if tree is None:
+            return None
+        vals = []
+        for node in tree.body:
+            tgts = node.targets if isinstance(node, ast.Assign) else [node.target] if isinstance(node, (ast.AnnAssign, ast.AugAssign)) else []
+            for t in tgts:
+                if any(isinstance(n, ast.Name) and n.id == name for n in ast.walk(t)):
+                    vals.append(node.value if isinstance(node, (ast.Assign, ast.AnnAssign)) and isinstance(t, ast.Name) else "other")
+        if not vals:
+            return None
+
+        def immutable(v):
+            if v is None or isinstance(v, ast.Constant):
+                return True
+            if isinstance(v, ast.Tuple):
+                return all(immutable(x) for x in v.elts)
+            if isinstance(v, (ast.UnaryOp,)):
+                return immutable(v.operand)
+            if isinstance(v, ast.BinOp):
+                return immutable(v.left) and immutable(v.right)
+            if isinstance(v, ast.Call):
+                f = v.func
+                parts = []
+                while isinstance(f, ast.Attribute):
+                    parts.append(f.attr)
+                    f = f.value
+                if isinstance(f, ast.Name):
+                    parts.append(f.id)
+                    return ".".join(reversed(parts)) in Program.IMMUTABLE_CALLS
+                return False
+            if isinstance(v, ast.Attribute):
+                return True  # np.pi, module constants
+            return False
+        if all(v != "other" and immutable(v) for v in vals):
+            return "immutable"
+        if all(v != "other" and isinstance(v, (ast.Dict, ast.List, ast.Set, ast.Tuple)) for v in vals):
+            return "literal"
+        return "mutable"
+
+    def class_level_attr(self, attr):
+        """some loaded class binds this name in its body (a class attribute: one object shared by all instances that do
+        not shadow it)"""
+        if not hasattr(self, "_clsattrs") or self._clsattrs_n != len(self.mods):
+            names = set()
+            for cls in self.classes.values():
+                for n in cls.body:
+                    tg = n.targets if isinstance(n, ast.Assign) else [n.target] if isinstance(n, ast.AnnAssign) and n.value is not None else []
+                    names |= {t.id for t in tg if isinstance(t, ast.Name)}
+            self._clsattrs, self._clsattrs_n = names, len(self.mods)
+        return attr in self._clsattrs
+
+    def attr_assigned(self, attr):
+        """some loaded module assigns an attribute of this name (`x.attr = ...`, or a class-body field)"""
+        if not hasattr(self, "_assigned") or self._assigned_n != len(self.mods):
+            names = set()
+            for tree in self.mods.values():
+                for node in ast.walk(tree):
+                    if isinstance(node, ast.Attribute) and isinstance(node.ctx, (ast.Store, ast.Del)):
+                        names.add(node.attr)
+                    elif isinstance(node, ast.ClassDef):
+                        for n in node.body:
+                            tg = n.targets if isinstance(n, ast.Assign) else [n.target] if isinstance(n, ast.AnnAssign) else []
+                            names |= {t.id for t in tg if isinstance(t, ast.Name)}
+            self._assigned, self._assigned_n = names, len(self.mods)
+        return attr in self._assigned
+
+    HANDLED_DUNDERS = {"__init__", "__repr__", "__str__", "__format__", "__getitem__", "__setitem__", "__post_init__",
+                       "__init_subclass__", "__class_getitem__"}
+
+    def unhandled_dunders(self):
+        """special methods of pewlib's own classes that Python calls implicitly (iteration, operators, comparisons,
+        context managers, attribute hooks, ...) and this translator does not follow"""
+        out = []
+        for k, cls in self.classes.items():
+            for n in cls.body:
+                if isinstance(n, ast.FunctionDef) and n.name.startswith("__") and n.name.endswith("__") \
+                        and n.name not in Program.HANDLED_DUNDERS:
+                    out.append(f"{k[1]}.{n.name}")
+        return sorted(out)
+
     def methods_named(self, name):
         out = []
         for k, cls in self.classes.items():
@@ -409,6 +646,16 @@ def decorators(fn):
     return out
 
 
+KNOWN_DECORATORS = {"property", "staticmethod", "classmethod", "abstractmethod", "abc.abstractmethod", "override",
+                    "typing.override", "overload", "typing.overload", "no_type_check", "final", "typing.final"}
+
+
+def unknown_decorators(fn):
+    """decorators that may replace the function by something else (the body read here is then not what runs)"""
+    return sorted(d for d in decorators(fn) if d not in KNOWN_DECORATORS
+                  and not d.endswith((".setter", ".getter", ".deleter")))
+
+
 def dotted(node):
     """a.b.c -> 'a.b.c' for pure attribute chains on a Name, else None"""
     parts = []
@@ -421,89 +668,494 @@ def dotted(node):
     return None
 
 
+def mentions_object_dtype(e: ast.Call) -> bool:
+    """a NumPy constructor call that names the object dtype: its result holds references"""
+    for a in list(e.args) + [k.value for k in e.keywords]:
+        for n in ast.walk(a):
+            if isinstance(n, ast.Name) and n.id == "object":
+                return True
+            if isinstance(n, ast.Attribute) and n.attr in ("object_", "object"):
+                return True
+            if isinstance(n, ast.Constant) and isinstance(n.value, str) and (n.value in ("O", "object", "|O") or n.value.startswith("O")):
+                return True
+    return False
+
+
+def keyword_literal(e: ast.Call, name: str):
+    """('absent',) | ('const', value) | ('expr',) for keyword `name` of a call"""
+    for k in e.keywords:
+        if k.arg == name:
+            return ("const", k.value.value) if isinstance(k.value, ast.Constant) else ("expr",)
+        if k.arg is None:
+            return ("expr",)  # **mapping may carry it
+    return ("absent",)
+
+
+def free_names(fn) -> set:
+    """names read inside a lambda / nested function that are not its own parameters or locals (its free variables, and
+    those of the functions nested in it)"""
+    a = fn.args
+    own = {x.arg for x in a.posonlyargs + a.args + a.kwonlyargs} | {x.arg for x in (a.vararg, a.kwarg) if x}
+    if isinstance(fn, ast.FunctionDef):
+        nonlocal_ = {x for n in ast.walk(fn) if isinstance(n, (ast.Nonlocal, ast.Global)) for x in n.names}
+        own |= {n.id for n in ast.walk(fn) if isinstance(n, ast.Name) and isinstance(n.ctx, (ast.Store, ast.Del))} - nonlocal_
+    return {n.id for n in ast.walk(fn) if isinstance(n, ast.Name) and isinstance(n.ctx, ast.Load)} - own
+
+
+def assigned_names(fn) -> set:
+    """names a function body binds (its locals), not counting nested function bodies' own parameters"""
+    out = {n.id for n in ast.walk(fn) if isinstance(n, ast.Name) and isinstance(n.ctx, (ast.Store, ast.Del))}
+    out |= {n.name for n in ast.walk(fn) if isinstance(n, (ast.FunctionDef, ast.ClassDef)) and n is not fn}
+    for n in ast.walk(fn):
+        if isinstance(n, (ast.Import, ast.ImportFrom)):
+            out |= {(a.asname or a.name).split(".")[0] for a in n.names}
+    nonlocal_ = {x for n in ast.walk(fn) if isinstance(n, (ast.Nonlocal, ast.Global)) for x in n.names}
+    return out - nonlocal_
+
+
+class Unsupported(Exception):
+    """a construct that cannot be expressed soundly in the IR: the whole function becomes `unknown`"""
+
+
+def unknown_program(nparams: int):
+    """every parameter may be written and may be returned"""
+    out = []
+    for i in range(nparams):
+        out += [["bind", i, ["param", i]], ["write", i], ["ret", i]]
+    return ["seq", out]
+
+
+def _join_da(a, b):
+    if a is None:
+        return b
+    if b is None:
+        return a
+    return a & b
+
+
+def definitely_bound(ir, bound, rets=None, jumps=None):
+    """definite-assignment check of the emitted IR (with its control-flow markers): returns (variables bound after `ir`
+    on every path that completes normally | None when no path does, first variable read while possibly unbound | None).
+    Markers: ["stop", "ret" | "raise" | "jump"] ends the path (a `ret` inside a ["scope", [...]] — an inlined callee —
+    ends the callee only, a `jump` the innermost loop's iteration); ["exc"] is the exception edge out of a statement of a
+    `try` body.  The check is about the TRANSLATOR (does it read a variable it has not bound where Python has bound the
+    name?), not about the Python program: like Python's own rule it assumes a loop body ran when a name bound in it is
+    read after the loop, and a `try` body completed when a name bound in it is read after the handlers (Python raises
+    UnboundLocalError otherwise, which is the `raise` rule of `Exec`, the only rule that applies to such a read)."""
+    if bound is None:
+        return None, None  # unreachable
+    k = ir[0]
+    if k == "skip":
+        return bound, None
+    if k == "exc":
+        return None, None
+    if k == "stop":
+        if ir[1] == "ret" and rets is not None:
+            rets.append(bound)
+        if ir[1] == "jump" and jumps is not None:
+            jumps.append(bound)
+        return None, None
+    if k == "bind":
+        src = ir[2]
+        if src[0] in ("alias", "load", "reach"):
+            for y in src[1]:
+                if y not in bound:
+                    return bound, y
+        return bound | {ir[1]}, None
+    if k in ("write", "ret"):
+        return bound, (None if ir[1] in bound else ir[1])
+    if k == "store":
+        for y in (ir[1], ir[3]):
+            if y not in bound:
+                return bound, y
+        return bound, None
+    if k == "seq":
+        for s in ir[1]:
+            bound, bad = definitely_bound(s, bound, rets, jumps)
+            if bad is not None:
+                return bound, bad
+        return bound, None
+    if k == "scope":
+        inner = []
+        end = bound
+        for s in ir[1]:
+            end, bad = definitely_bound(s, end, inner, None)
+            if bad is not None:
+                return end, bad
+        for r in inner:
+            end = _join_da(end, r)
+        return end, None
+    if k == "branch":
+        a, bad = definitely_bound(ir[1], bound, rets, jumps)
+        if bad is not None:
+            return bound, bad
+        b, bad = definitely_bound(ir[2], bound, rets, jumps)
+        if bad is not None:
+            return bound, bad
+        return _join_da(a, b), None
+    if k == "loop":
+        inner = []
+        end, bad = definitely_bound(ir[1], bound, rets, inner)
+        if bad is not None:
+            return bound, bad
+        for r in inner:
+            end = _join_da(end, r)
+        # a second iteration starts from the end of the first: the body must also check from there
+        if end is not None and end != bound:
+            _, bad = definitely_bound(ir[1], bound & end, rets, [])
+            if bad is not None:
+                return bound, bad
+        return (end if end is not None else bound), None
+    raise ValueError(k)
+
+
+def py_maybe_unbound(fn) -> set:
+    """names of the Python function `fn` that its own control flow may read before binding them (the same optimistic
+    rules as `definitely_bound`: a loop body ran, a `try` body completed).  Python raises UnboundLocalError on such a
+    path; an IR variable of such a name that `definitely_bound` finds possibly unbound is the program's doing, not the
+    translator's."""
+    params = {a.arg for a in fn.args.posonlyargs + fn.args.args + fn.args.kwonlyargs}
+    params |= {a.arg for a in (fn.args.vararg, fn.args.kwarg) if a}
+    local = assigned_names(fn) | params
+    flagged = set()
+
+    def reads(node, bound, extra=frozenset()):
+        """names read by an expression (nested function bodies run later: skipped; comprehension targets are their own)"""
+        if node is None:
+            return
+        if isinstance(node, (ast.Lambda, ast.FunctionDef)):
+            return
+        if isinstance(node, (ast.ListComp, ast.SetComp, ast.GeneratorExp, ast.DictComp)):
+            ex = set(extra)
+            for g in node.generators:
+                reads(g.iter, bound, frozenset(ex))
+                ex |= {n.id for n in ast.walk(g.target) if isinstance(n, ast.Name)}
+                for c in g.ifs:
+                    reads(c, bound, frozenset(ex))
+            for part in ([node.key, node.value] if isinstance(node, ast.DictComp) else [node.elt]):
+                reads(part, bound, frozenset(ex))
+            return
+        if isinstance(node, ast.Name):
+            if isinstance(node.ctx, ast.Load) and node.id in local and node.id not in bound and node.id not in extra:
+                flagged.add(node.id)
+            return
+        for ch in ast.iter_child_nodes(node):
+            reads(ch, bound, extra)
+
+    def binds(target):
+        return {n.id for n in ast.walk(target) if isinstance(n, ast.Name) and isinstance(n.ctx, (ast.Store,))}
+
+    def walrus(node):
+        return {n.target.id for n in ast.walk(node) if isinstance(n, ast.NamedExpr) and isinstance(n.target, ast.Name)} if node is not None else set()
+
+    def join(a, b):
+        return b if a is None else a if b is None else a & b
+
+    def block(stmts, bound, jumps):
+        for s in stmts:
+            if bound is None:
+                return None
+            bound = stmt(s, bound, jumps)
+        return bound
+
+    def stmt(s, bound, jumps):
+        if isinstance(s, (ast.FunctionDef, ast.ClassDef)):
+            return bound | {s.name}
+        if isinstance(s, (ast.Import, ast.ImportFrom)):
+            return bound | {(a.asname or a.name).split(".")[0] for a in s.names}
+        if isinstance(s, ast.Assign):
+            reads(s.value, bound)
+            for t in s.targets:
+                reads(t, bound)
+            out = bound | walrus(s.value)
+            for t in s.targets:
+                out = out | binds(t)
+            return out
+        if isinstance(s, ast.AnnAssign):
+            reads(s.value, bound)
+            reads(s.target, bound)
+            return bound | (binds(s.target) if s.value is not None else set()) | walrus(s.value)
+        if isinstance(s, ast.AugAssign):
+            reads(s.value, bound)
+            if isinstance(s.target, ast.Name) and s.target.id in local and s.target.id not in bound:
+                flagged.add(s.target.id)
+            reads(s.target, bound)
+            return bound | binds(s.target)
+        if isinstance(s, ast.Return):
+            reads(s.value, bound)
+            return None
+        if isinstance(s, ast.Raise):
+            reads(s.exc, bound)
+            reads(s.cause, bound)
+            return None
+        if isinstance(s, (ast.Break, ast.Continue)):
+            jumps.append(bound)
+            return None
+        if isinstance(s, ast.If):
+            reads(s.test, bound)
+            b0 = bound | walrus(s.test)
+            return join(block(s.body, b0, jumps), block(s.orelse, b0, jumps))
+        if isinstance(s, (ast.For, ast.While)):
+            inner = []
+            if isinstance(s, ast.For):
+                reads(s.iter, bound)
+                reads(s.target, bound)
+                b0 = bound | binds(s.target) | walrus(s.iter)
+            else:
+                reads(s.test, bound)
+                b0 = bound | walrus(s.test)
+            end = block(s.body, b0, inner)
+            for j in inner:
+                end = join(end, j)
+            end = end if end is not None else bound
+            return block(s.orelse, end, jumps) if s.orelse else end
+        if isinstance(s, ast.With):
+            for it in s.items:
+                reads(it.context_expr, bound)
+                if it.optional_vars is not None:
+                    reads(it.optional_vars, bound)
+                    bound = bound | binds(it.optional_vars)
+            return block(s.body, bound, jumps)
+        if isinstance(s, ast.Try):
+            end = block(s.body, bound, jumps)
+            after = block(s.orelse, end, jumps) if end is not None else None
+            for h in s.handlers:
+                hb = (end if end is not None else bound) | ({h.name} if h.name else set())
+                after = join(after, block(h.body, hb, jumps))
+            if s.finalbody:
+                after = block(s.finalbody, after if after is not None else bound, jumps) if after is not None else \
+                    (block(s.finalbody, bound, jumps) and None)
+            return after
+        if isinstance(s, ast.Delete):
+            for t in s.targets:
+                reads(t, bound)
+            return bound
+        for ch in ast.iter_child_nodes(s):
+            reads(ch, bound)
+        return bound | walrus(s)
+
+    block(fn.body, frozenset(params), [])
+    return flagged
+
+
+def strip_markers(ir):
+    """the IR proper: control-flow markers removed (`scope` is a `seq`; an alternative that is only an exception edge
+    is `skip`)"""
+    k = ir[0]
+    if k in ("stop", "exc"):
+        return None
+    if k in ("seq", "scope"):
+        return ["seq", [t for t in (strip_markers(s) for s in ir[1]) if t is not None]]
+    if k == "branch":
+        return ["branch", strip_markers(ir[1]) or ["skip"], strip_markers(ir[2]) or ["skip"]]
+    if k == "loop":
+        return ["loop", strip_markers(ir[1]) or ["skip"]]
+    return ir
+
+
 class Translator:
     MAX_DEPTH = 7
 
     def __init__(self, prog: Program):
         self.prog = prog
-        self.nvars = 0
-        self.diag = []  # unknown calls etc.
-        self.fields = {}  # (self own-var, attr) -> (own var, reach var)
-        self.arr = set()    # facts: v (own-var v holds a plain array / scalar), ("tag", v, t) (its value has library type t)
-        self.cont = set()
-        self.lambda_vals = {}
+        self._py_unbound = {}
+        self.field_log = {}  # attribute name -> {id(store site): type of every value translated there so far | None}
+        self.list_violation = False
+        self.reset()
 
-    def init_fields(self, out, cls_key, selfpair, fresh):
-        """field-sensitive view of `self` (only for classes whose methods never let `self` escape)"""
-        names = self.prog.class_fields(cls_key) if cls_key else None
-        if not names:
-            return
-        so, sr = selfpair
-        for a in names:
-            if (so, a) in self.fields:
-                continue
-            fo, fr = self.new(), self.new()
-            self.fields[(so, a)] = (fo, fr)
-            if fresh:
-                out.append(["bind", fo, ["fresh"]])
-                out.append(["bind", fr, ["fresh"]])
-            else:
-                out.append(["bind", fo, ["alias", [so, sr]]])
-                out.append(["bind", fr, ["alias", [sr]]])
+    def infer_plain_fields(self):
+        """(class, attribute) pairs such that every exact instance of the class holds a plain value (ndarray / scalar /
+        str / Path / None: no references) in the attribute.  A store site `self.<f> = v` inside a method can affect the
+        instances the method can run on; any other store site (`obj.<f> = v` elsewhere) every class.  (K, f) is kept iff
+        every store site that can affect K stores a value this translator judges plain, each judged in its own function.
+        Greatest fixpoint (start from all pairs, drop violators until stable): sound as an invariant — assuming the
+        fields hold plain values when READ, every WRITE stores a plain value — for objects that only pewlib's code builds
+        and modifies, which the harness asserts on every pewlib object it passes (`plain_field_violations`)."""
+        prog = self.prog
+        prog.plain_fields = {}
+        glob, local, owners = {}, {}, []   # f -> {site}, (class def, method) -> {(f, site)}
+        for (mod, name), fn in prog.funcs.items():
+            owners.append((mod, fn, None))
+        for key, cls in prog.classes.items():
+            for n in cls.body:
+                if isinstance(n, ast.FunctionDef):
+                    owners.append((key[0], n, key))
+        in_method = set()
+        for key, cls in prog.classes.items():
+            for fn in cls.body:
+                if not isinstance(fn, ast.FunctionDef) or not fn.args.args or "staticmethod" in decorators(fn) \
+                        or "classmethod" in decorators(fn):
+                    continue
+                me = fn.args.args[0].arg
+                rebound = any(isinstance(n, ast.Name) and n.id == me and isinstance(n.ctx, (ast.Store, ast.Del)) for n in ast.walk(fn))
+                for node in ast.walk(fn):
+                    if isinstance(node, ast.Attribute) and isinstance(node.ctx, (ast.Store, ast.Del)) \
+                            and isinstance(node.value, ast.Name) and node.value.id == me and not rebound:
+                        local.setdefault((key, fn.name), set()).add((node.attr, id(node)))
+                        in_method.add(id(node))
+        for tree in prog.mods.values():
+            for node in ast.walk(tree):
+                if isinstance(node, ast.Attribute) and isinstance(node.ctx, (ast.Store, ast.Del)) and id(node) not in in_method:
+                    glob.setdefault(node.attr, set()).add(id(node))
+                if (isinstance(node, ast.Name) and node.id in ("setattr", "delattr", "__dict__")) or \
+                        (isinstance(node, ast.Attribute) and node.attr in ("__dict__", "__setattr__")):
+                    return  # attributes may be set by name: nothing is known about any field
+        def super_calls(cls):
+            return {n.attr for n in ast.walk(cls) if isinstance(n, ast.Attribute) and isinstance(n.value, ast.Call)
+                    and isinstance(n.value.func, ast.Name) and n.value.func.id == "super"}
+        affects = {}   # class K -> {(f, site)} of the methods that can run on an exact K
+        for K in prog.classes:
+            acc = set()
+            supers = set()
+            for B in prog.mro(K):
+                supers |= super_calls(prog.classes[B])
+            for B in prog.mro(K):
+                for fn in prog.classes[B].body:
+                    if isinstance(fn, ast.FunctionDef):
+                        m = prog.find_method(K, fn.name)
+                        if (m is not None and m[0] == B) or fn.name in supers:
+                            acc |= local.get((B, fn.name), set())
+            affects[K] = acc
+        def plain_type(t):
+            return t == "arr" or (isinstance(t, tuple) and t[0] == "list" and plain_type(t[1]))
+        # first guess (round 0, nothing assumed): the one plain type found at the store sites that can be judged without
+        # assumptions; then the greatest fixpoint below that guess: a pair is dropped as soon as one of its sites stores
+        # anything else under the current assumptions
+        cand = None
+        for _round in range(12):
+            prog.plain_fields = dict(cand or {})
+            self.field_log = {}
+            self.list_violation = False
+            for mod, fn, cls_key in owners:
+                if not any(isinstance(n, ast.Attribute) and isinstance(n.ctx, ast.Store) for n in ast.walk(fn)):
+                    continue
+                ck = cls_key if cls_key and "staticmethod" not in decorators(fn) else None
+                self.reset()
+                try:
+                    self._translate(mod, fn, ck, False, self.param_names(fn))
+                except Unsupported:
+                    pass
+            site_t = {sid: t for sites in self.field_log.values() for sid, t in sites.items()}
+            new = {}
+            for K, acc in affects.items():
+                for f in {g for g, _ in acc}:
+                    sids = [sid for g, sid in acc if g == f] + list(glob.get(f, ()))
+                    ts = {site_t.get(sid) for sid in sids}
+                    if cand is None:
+                        ts.discard(None)
+                    t = next(iter(ts)) if len(ts) == 1 else None
+                    if plain_type(t) and not (t != "arr" and self.list_violation) and (cand is None or cand.get((K, f)) == t):
+                        new[(K, f)] = t
+            if cand is not None and new == cand:
+                break
+            cand = new
+        else:
+            cand = {}
+        prog.plain_fields = cand
+        self.reset()
+
+    def py_unbound(self, fn):
+        if id(fn) not in self._py_unbound:
+            self._py_unbound[id(fn)] = py_maybe_unbound(fn)
+        return self._py_unbound[id(fn)]
+
+    def reset(self):
+        self.var_name = {}  # IR variable of a Python name -> (function node, name)
+        self.ever_bound = set()  # IR variables some emitted statement binds (so far)
+        self.nvars = 0
+        self.nsites = 0
+        self.diag = []      # unknown calls etc.
+        self.arr = set()    # facts: v (var v holds a plain array / scalar), ("cont", v), ("tag", v, t), ("fld", v, attr)
+        self.labels = {}    # attribute name -> heap label (>= 2)
+        self.lambda_vals = {}
+        self.gvar = None    # the object standing for all mutable module-level state
 
     def new(self):
         self.nvars += 1
         return self.nvars - 1
 
+    def site(self):
+        self.nsites += 1
+        return self.nsites - 1
+
+    def label(self, attr):
+        if attr not in self.labels:
+            self.labels[attr] = len(self.labels) + 2
+        return self.labels[attr]
+
     # ------------------------------------------------------------------ entry
     def translate(self, mod, fn: ast.FunctionDef, cls_key=None, constructor=False):
         """returns (np, param names, IR)"""
-        self.nvars = 0
-        self.diag = []
-        self.fields = {}
-        self.arr = set()
-        self.cont = set()
-        self.lambda_vals = {}
+        self.reset()
         params = self.param_names(fn)
+        nparams = len(params) - (1 if constructor else 0)
+        pnames = [n for i, (n, _) in enumerate(params) if not (constructor and i == 0)]
+        try:
+            bad_dunders = self.prog.unhandled_dunders()
+            if bad_dunders:
+                raise Unsupported(f"classes define special methods that are called implicitly and not followed: {bad_dunders[:5]}")
+            if unknown_decorators(fn):
+                raise Unsupported(f"decorated with {unknown_decorators(fn)}: the function that runs is the decorator's result")
+            ir = self._translate(mod, fn, cls_key, constructor, params)
+            # fail closed per variable: one that is read while possibly unbound is bound to `unknown` at entry
+            poisoned, own_doing = [], set()
+            for _ in range(200):
+                _, bad = definitely_bound(ir, frozenset(own_doing))
+                if bad is None:
+                    break
+                owner = self.var_name.get(bad)
+                if owner is not None and owner[1] in self.py_unbound(owner[0]):
+                    own_doing.add(bad)  # the Python function itself may read this name before binding it
+                    continue
+                poisoned.append(bad)
+                ir = ["seq", [["bind", bad, ["unknown"]], ir]]
+            else:
+                raise Unsupported("too many IR variables read before they are bound on every path")
+            if poisoned:
+                self.diag.append(f"IR variables read while possibly unbound, bound to `unknown` at entry: {poisoned}")
+            ir = strip_markers(ir)
+        except Unsupported as e:
+            self.diag.append(f"UNKNOWN FUNCTION ({e}): every parameter may be written / aliased")
+            ir = unknown_program(nparams)
+        return nparams, pnames, ir
+
+    def _translate(self, mod, fn, cls_key, constructor, params):
         scope = Scope(self, mod, cls_key, top=True)
-        scope.funcvals = self.func_locals(mod, fn)
-        rebinds = {n.id for n in ast.walk(fn) if isinstance(n, ast.Name) and isinstance(n.ctx, (ast.Store, ast.Del))}
+        scope.fn_name = fn.name if cls_key is not None else None
+        scope.fn_node = fn
+        scope.setup_function(fn)
+        rebinds = assigned_names(fn)
         scope.stable = {n for n, _ in params} - rebinds
         out = []
-        pnames = []
-        idx = 0
+        # parameters are the IR variables 0 .. np-1 (the constructor's `self` comes after them)
+        order = [p for i, p in enumerate(params) if not (constructor and i == 0)]
+        for idx, (name, ann) in enumerate(order):
+            v = scope.var(name)
+            assert v == idx
+            out.append(["bind", v, ["param", idx]])
+        self.gvar = self.new()
+        out.append(["bind", self.gvar, ["fresh", self.site()]])
         for i, (name, ann) in enumerate(params):
-            vo, vr = scope.var(name)
             if constructor and i == 0:
-                out.append(["bind", vo, ["fresh"]])
-                out.append(["bind", vr, ["fresh"]])
-                scope.selfvar = vo
-                self.init_fields(out, cls_key, (vo, vr), fresh=True)
+                v = scope.var(name)
+                out.append(["bind", v, ["fresh", self.site()]])
+                scope.selfvar = v
+                scope.set_tag(v, ("cls", cls_key))
                 continue
-            out.append(["bind", vo, ["param", idx]])
-            out.append(["bind", vr, ["param", idx]])
+            v = scope.vars[name]
             if i == 0 and cls_key is not None and name == "self":
-                scope.selfvar = vo
-                self.init_fields(out, cls_key, (vo, vr), fresh=False)
-            if ann is not None and is_array_annotation(ann):
-                scope.arr.add(vo)
-            if ann is not None and is_container_annotation(ann):
-                scope.cont.add(vo)
-            if ann is not None and is_xml_annotation(ann):
-                scope.set_tag(vo, "xml")
-            if annotation_tag(self.prog, mod, ann) and not (i == 0 and cls_key is not None):
-                scope.set_tag(vo, annotation_tag(self.prog, mod, ann))
-            pnames.append(name)
-            idx += 1
+                scope.selfvar = v
+            scope.annotate(v, mod, ann, is_self=(i == 0 and cls_key is not None))
+            scope.immutable_param[name] = ann is not None and is_immutable_annotation(ann)
+        scope.prebind_captured(fn, out)
         scope.block(fn.body, out, stack=[(mod, fn.name)])
         if constructor:
-            so, sr = scope.vars[params[0][0]]
-            out.append(["ret", so])
-            out.append(["ret", sr])
-        return idx, pnames, ["seq", out]
+            scope.ret(scope.name_val(params[0][0]), out)
+        return ["seq", out]
 
-    def func_locals(self, mod, fn):
-        """local names that are only ever bound by `name = <pewlib function>`: name -> set of function keys.
+    def func_locals(self, mod, fn, scope=None):
+        """local names that are only ever bound by `name = <pewlib function | local function | lambda>`:
+        name -> tuple of function values ("key", pewlib key) / ("node", FunctionDef | Lambda).
         A call through such a name is one of those functions (translated as a branch over them)."""
         params = {n for n, _ in self.param_names(fn)}
         vals, plain = {}, set()
@@ -519,20 +1171,30 @@ class Translator:
         other = {n.id for n in ast.walk(fn) if isinstance(n, ast.Name) and isinstance(n.ctx, (ast.Store, ast.Del))
                  and id(n) not in plain}
         other |= {n for node in ast.walk(fn) if isinstance(node, (ast.Global, ast.Nonlocal)) for n in node.names}
-        other |= {n.name for n in ast.walk(fn) if isinstance(n, (ast.FunctionDef, ast.ClassDef)) and n is not fn}
+        localdefs = {}
+        for n in ast.walk(fn):
+            if isinstance(n, ast.FunctionDef) and n is not fn:
+                localdefs.setdefault(n.name, []).append(n)
+        other |= {n.name for n in ast.walk(fn) if isinstance(n, ast.ClassDef)}
         out = {}
         for name, vs in vals.items():
-            if name in params or name in other:
+            if name in params or name in other or name in localdefs:
                 continue
-            keys = set()
+            keys = []
             for v in vs:
+                if isinstance(v, ast.Lambda):
+                    keys.append(("node", v))
+                    continue
+                if isinstance(v, ast.Name) and v.id in localdefs and len(localdefs[v.id]) == 1 and v.id not in stored | params:
+                    keys.append(("node", localdefs[v.id][0]))
+                    continue
                 r = self.prog.resolve_name(mod, v) if isinstance(v, ast.Name) and v.id not in stored | params else None
                 if not (r and r[0] == "func"):
                     keys = None
                     break
-                keys.add(r[1])
+                keys.append(("key", r[1]))
             if keys:
-                out[name] = frozenset(keys)
+                out[name] = tuple(keys)
         return out
 
     @staticmethod
@@ -554,22 +1216,74 @@ def is_container_annotation(ann: str) -> bool:
                for x in parts)
 
 
+PLAIN_TYPES = {"np.ndarray", "numpy.ndarray", "float", "int", "str", "bool", "Path", "bytes", "complex", "np.dtype",
+               "np.float64", "np.float32", "np.int64", "np.int32"}
+CONTAINER_TYPES = {"list", "tuple", "set", "frozenset", "Sequence", "Iterable", "Iterator", "Collection", "List", "Tuple", "Set"}
+MAPPING_TYPES = {"dict", "Mapping", "Dict", "MutableMapping"}
+
+
+def annotation_type(prog: Program, mod: str, node):
+    """what a (trusted, dynamically asserted) annotation says about a value:
+    "arr" (plain ndarray / scalar / str / Path: holds no references), ("list", t) (a builtin container whose items are t,
+    t possibly None = unknown), ("cls", key) (an instance of that pewlib class or of a subclass), or None"""
+    if node is None:
+        return None
+    if isinstance(node, str):
+        try:
+            node = ast.parse(node.strip(), mode="eval").body
+        except SyntaxError:
+            return None
+    if isinstance(node, ast.Constant) and isinstance(node.value, str):
+        return annotation_type(prog, mod, node.value)
+    if isinstance(node, ast.Constant) and node.value is None:
+        return "arr"
+    if isinstance(node, ast.BinOp) and isinstance(node.op, ast.BitOr):
+        parts, todo = [], [node]
+        while todo:
+            n = todo.pop()
+            if isinstance(n, ast.BinOp) and isinstance(n.op, ast.BitOr):
+                todo += [n.left, n.right]
+            elif not (isinstance(n, ast.Constant) and n.value is None):
+                parts.append(annotation_type(prog, mod, n))
+        if not parts:
+            return "arr"
+        if all(p == parts[0] for p in parts):
+            return parts[0]
+        if all(isinstance(p, tuple) and p[0] == "list" for p in parts):
+            return ("list", None)
+        return None
+    d = dotted(node)
+    if d is not None:
+        if d in PLAIN_TYPES:
+            return "arr"
+        if d in CONTAINER_TYPES or d in MAPPING_TYPES:
+            return ("list", None)
+        if isinstance(node, ast.Name):
+            r = prog.resolve_name(mod, node)
+            if r and r[0] == "class":
+                return ("cls", r[1])
+        return None
+    if isinstance(node, ast.Subscript):
+        base = dotted(node.value)
+        args = node.slice.elts if isinstance(node.slice, ast.Tuple) else [node.slice]
+        args = [a for a in args if not (isinstance(a, ast.Constant) and a.value is Ellipsis)]
+        if base in CONTAINER_TYPES:
+            ts = [annotation_type(prog, mod, a) for a in args]
+            return ("list", ts[0] if ts and all(t == ts[0] for t in ts) else None)
+        if base in MAPPING_TYPES and len(args) == 2:
+            k, v = annotation_type(prog, mod, args[0]), annotation_type(prog, mod, args[1])
+            return ("list", v if k == "arr" else None)  # keys are elements too
+        if base in ("Optional",) and len(args) == 1:
+            return annotation_type(prog, mod, args[0])
+    return None
+
+
 def annotation_tag(prog: Program, mod: str, ann) -> tuple | None:
     """`C` / `C | None` / "C" naming exactly one pewlib class -> ("cls", key);  `list[C]` -> ("list", ("cls", key))"""
-    if ann is None:
-        return None
-    text = (ann if isinstance(ann, str) else ast.unparse(ann)).strip().strip("'\"")
-    names = [x.strip() for x in text.split("|") if x.strip() != "None"] if "[" not in text else [text]
-    if len(names) != 1:
-        return None
-    name = names[0]
-    if name.startswith("list[") and name.endswith("]"):
-        inner = annotation_tag(prog, mod, name[5:-1])
-        return ("list", inner) if inner else None
-    if not name.isidentifier():
-        return None
-    r = prog.resolve_name(mod, ast.Name(id=name))
-    return ("cls", r[1]) if r and r[0] == "class" else None
+    t = annotation_type(prog, mod, ann)
+    if isinstance(t, tuple) and (t[0] == "cls" or (t[0] == "list" and t[1] is not None)):
+        return t
+    return None
 
 
 def is_xml_annotation(ann: str) -> bool:
@@ -584,21 +1298,49 @@ def is_array_annotation(ann: str) -> bool:
     return all(x in ok for x in parts)
 
 
+def is_immutable_annotation(ann: str) -> bool:
+    """annotations of values that cannot change between two tests of them"""
+    parts = [x.strip() for x in ann.split("|")]
+    return all(x in {"float", "int", "str", "bool", "None", "Path", "bytes", "complex"} for x in parts)
+
+
 class Scope:
     def __init__(self, tr: Translator, mod, cls_key, top=False):
         self.tr, self.mod, self.cls_key, self.top = tr, mod, cls_key, top
-        self.vars = {}        # python name -> (own var, reach var)
-        # `arr`: own-vars known to hold plain ndarrays / scalars; `cont`: builtin containers / str (see properties)
-        self.res = None       # result variable pair of an inlined call
+        self.vars = {}        # python name -> IR variable
+        self.res = None       # result variable of an inlined call
         self.res_arr = True
-        self.selfvar = None   # own-var of `self`
+        self.selfvar = None   # variable of `self`
         self.def_cls = cls_key
+        self.fn_name = None   # name of the method being translated (for `self`'s possible classes)
+        self.fn_node = None   # the function whose body this scope translates
         self.localfuncs = {}
-        self.funcvals = {}    # name -> frozenset of pewlib function keys the name certainly holds one of
+        self.funcvals = {}    # name -> tuple of function values the name certainly holds one of (see func_locals)
+        self.fn_closure = {}  # id(FunctionDef | Lambda) -> Scope it closes over
         self.known = {}       # outcome of stable tests on the current path (path splitting)
         self.stable = set()   # parameter names never rebound in this function
+        self.immutable_param = {}  # parameter name -> annotated with an immutable type
+        self.weak = set()     # names read by nested functions / lambdas: never strongly updated once bound
 
-    # ------------------------------------------------------------------ helpers
+    def setup_function(self, fn):
+        """per-function syntactic facts: captured names, names possibly mutated, function-valued locals"""
+        for k, v in self.tr.func_locals(self.mod, fn).items():
+            self.funcvals[k] = v
+            for kind, node in v:
+                if kind == "node":
+                    self.fn_closure[id(node)] = self
+        for n in ast.walk(fn):
+            if isinstance(n, (ast.Lambda, ast.FunctionDef)) and n is not fn:
+                self.weak |= free_names(n)
+
+    def prebind_captured(self, fn, out):
+        """local names that nested functions / lambdas read are only ever weakly updated (`v := v | new`: the closure
+        reads them when it runs, whenever that is), so they are bound (to nothing) before the body"""
+        for name in sorted(self.weak & assigned_names(fn)):
+            if name not in self.vars:
+                out.append(["bind", self.var(name), ["fresh", self.tr.site()]])
+
+    # ------------------------------------------------------------------ facts
     @property
     def arr(self):
         return self.tr.arr
@@ -607,13 +1349,9 @@ class Scope:
     def arr(self, v):
         self.tr.arr = v
 
-    @property
-    def cont(self):
-        return self.tr.cont
-
     def tag_of(self, v):
         for f in self.tr.arr:
-            if type(f) is tuple and f[1] == v:
+            if type(f) is tuple and f[0] == "tag" and f[1] == v:
                 return f[2]
         return None
 
@@ -624,93 +1362,214 @@ class Scope:
         if tag is not None:
             self.tr.arr.add(("tag", v, tag))
 
+    def forget(self, v):
+        """drop every fact about variable v (it is being rebound)"""
+        self.tr.arr = {f for f in self.tr.arr if not (f == v or (type(f) is tuple and f[1] == v))}
+
+    def annotate(self, v, mod, ann, is_self=False):
+        """type facts from a (trusted, dynamically asserted) parameter annotation"""
+        if ann is None:
+            return
+        t = annotation_type(self.tr.prog, mod, ann)
+        if t == "arr":
+            self.arr.add(v)
+        elif isinstance(t, tuple) and t[0] == "list":
+            self.arr.add(("cont", v))
+            if t[1] is not None and self.tag_of(v) is None:
+                self.set_tag(v, t)
+        elif isinstance(t, tuple) and not is_self and self.tag_of(v) is None:
+            self.set_tag(v, t)
+        if is_xml_annotation(ann):
+            self.set_tag(v, "xml")
+
     def var(self, name):
         if name not in self.vars:
-            self.vars[name] = (self.tr.new(), self.tr.new())
+            self.vars[name] = self.tr.new()
+            if self.fn_node is not None:
+                self.tr.var_name[self.vars[name]] = (self.fn_node, name)
         return self.vars[name]
 
-    def pair_of(self, node):
-        """the variable pair of a plain local name (for by-reference parameter passing)"""
-        if isinstance(node, ast.Name) and node.id in self.funcvals:
-            return ("fn", self.funcvals[node.id])  # a pewlib function passed on by name
-        if isinstance(node, ast.Name) and node.id in self.vars:
-            return self.vars[node.id]
-        if isinstance(node, ast.Name) and node.id not in self.localfuncs:
-            r = self.tr.prog.resolve_name(self.mod, node)
-            if r and r[0] == "func":
-                return ("fn", frozenset([r[1]]))
-        return None
-
-    def bind1(self, out, v, vars_, unknown):
-        if unknown:
-            out.append(["bind", v, ["unknown"]])
-        elif vars_:
-            out.append(["bind", v, ["alias", sorted(vars_)]])
-        else:
-            out.append(["bind", v, ["fresh"]])
-
-    def bind(self, out, pair, val: Val):
-        vo, vr = pair
-        arr = self.is_arr(val)
-        # both sources are evaluated before either target changes
-        if vo in val.reach or vr in val.own:
-            to, t_r = self.tr.new(), self.tr.new()
-            self.bind1(out, to, val.own, val.unknown)
-            self.bind1(out, t_r, val.reach, val.unknown)
-            out.append(["bind", vo, ["alias", [to]]])
-            out.append(["bind", vr, ["alias", [t_r]]])
-        else:
-            self.bind1(out, vo, val.own, val.unknown)
-            self.bind1(out, vr, () if arr else val.reach, False if arr else val.unknown)
-        if arr:
-            self.arr.add(vo)
-        else:
-            self.arr.discard(vo)
-        self.set_tag(vo, None if arr else val.tag)
-
-    def tmp(self, out, val: Val):
-        pair = (self.tr.new(), self.tr.new())
-        self.bind(out, pair, val)
-        return pair
-
-    def write(self, out, val: Val, deep=False):
-        """a write through `val`: its own object(s); `deep` also everything reachable (unknown callee)"""
-        targets = val.all() if deep else val.own
-        for v in sorted(targets):
-            out.append(["write", v])
-        if val.unknown:
-            t = self.tr.new()
-            out.append(["bind", t, ["unknown"]])
-            out.append(["write", t])
+    def name_val(self, name):
+        v = self.vars[name]
+        return Val([v], False, v in self.arr, ("cont", v) in self.arr, self.tag_of(v))
 
     def is_arr(self, val: Val):
         if val.unknown:
             return False
         if val.arr:
             return True
-        return bool(val.own) and all(v in self.arr for v in val.own) and not val.reach - val.own
+        return bool(val.own) and all(v in self.arr for v in val.own)
 
-    def name_val(self, name):
-        vo, vr = self.vars[name]
-        if vo in self.arr:
-            return Val([vo], (), False, True)
-        return Val([vo], [vr], False, False, self.tag_of(vo))
+    def is_cont(self, val: Val):
+        if val.unknown or self.is_arr(val):
+            return False
+        if val.cont or (isinstance(val.tag, tuple) and val.tag[0] == "list"):
+            return True
+        return bool(val.own) and all(("cont", v) in self.arr for v in val.own)
+
+    # ------------------------------------------------------------------ IR helpers
+    def fresh(self, out):
+        t = self.tr.new()
+        out.append(["bind", t, ["fresh", self.tr.site()]])
+        return t
+
+    def srcs(self, out, val: Val):
+        """IR variables standing for the objects `val` may be (an `unknown` temporary added when needed)"""
+        vs = sorted(val.own)
+        if val.unknown:
+            t = self.tr.new()
+            out.append(["bind", t, ["unknown"]])
+            vs.append(t)
+        return vs
+
+    def bind(self, out, v, val: Val, weak=False):
+        self.tr.ever_bound.add(v)
+        arr, cont = self.is_arr(val), self.is_cont(val)
+        own = set(val.own) | ({v} if weak else set())
+        if val.unknown:
+            out.append(["bind", v, ["unknown"]])
+        elif own:
+            out.append(["bind", v, ["alias", sorted(own)]])
+        else:
+            out.append(["bind", v, ["fresh", self.tr.site()]])
+        if weak:
+            arr, cont = arr and v in self.arr, cont and ("cont", v) in self.arr
+            tag = val.tag if val.tag == self.tag_of(v) else None
+        else:
+            tag = val.tag
+            # facts about the fields of the object move with it when the value is exactly one variable
+            flds = {f[2] for f in self.tr.arr if type(f) is tuple and f[0] == "fld" and len(val.own) == 1
+                    and f[1] == next(iter(val.own))} if not val.unknown else set()
+        self.forget(v)
+        if arr:
+            self.arr.add(v)
+        if cont:
+            self.arr.add(("cont", v))
+        self.set_tag(v, None if arr else tag)
+        if not weak:
+            for a in flds:
+                self.arr.add(("fld", v, a))
+
+    def tmp(self, out, val: Val):
+        v = self.tr.new()
+        self.bind(out, v, val)
+        return v
+
+    def one(self, out, val: Val):
+        """a single IR variable holding the value"""
+        if len(val.own) == 1 and not val.unknown:
+            return next(iter(val.own))
+        return self.tmp(out, val)
+
+    def elem(self, out, val: Val, label=WILD, view=None, tag=None):
+        """an element / attribute / view of `val`: what slot `label` holds; `view`: or (part of) the value itself
+        (default: unless it is known to be a builtin container)"""
+        if self.is_arr(val):
+            return Val(val.own, False, True)
+        if view is None:
+            view = not self.is_cont(val)
+        if not val.own and not val.unknown:
+            return FRESH
+        t = self.tr.new()
+        out.append(["bind", t, ["load", self.srcs(out, val), label, self.tr.site()]])
+        own = {t} | (set(val.own) if view else set())
+        tag = tag if tag is not None else loaded_tag(val.tag)
+        if tag == "arr":  # items of a container annotated as holding plain arrays / scalars
+            return Val(own, val.unknown, True)
+        return Val(own, val.unknown, False, False, tag)
+
+    def store(self, out, base: Val, label, val: Val, new_base=False):
+        """the object(s) `base` now hold a reference to `val` in slot `label`"""
+        if not (val.own or val.unknown) or not (base.own or base.unknown):
+            return
+        bs, vs = self.srcs(out, base), self.srcs(out, val)
+        for b in bs:
+            for v in vs:
+                out.append(["store", b, label, v])
+        for b in base.own:
+            self.arr.discard(b)  # it holds a reference now
+        if new_base:
+            return  # an object created just now: no other name of it exists
+        self.drop_field_facts(None if label == WILD else label)
+        if not self.is_arr(val):
+            if isinstance(base.tag, tuple) and base.tag[0] == "list" and label == WILD:
+                self.tr.list_violation = True  # something not plain goes into a container typed as holding plain values
+            self.drop_plain_item_tags()
+
+    def drop_plain_item_tags(self):
+        """a reference to something that is not a plain value was stored somewhere: no container is known to hold
+        plain values only any more (containers may be aliased)"""
+        def plain(t):
+            return t == "arr" or (isinstance(t, tuple) and t[0] == "list" and plain(t[1]))
+        self.tr.arr = {f for f in self.tr.arr if not (type(f) is tuple and f[0] == "tag" and plain(f[2]))}
+
+    def drop_field_facts(self, label):
+        names = {a for a, l in self.tr.labels.items() if label is None or l == label}
+        self.tr.arr = {f for f in self.tr.arr if not (type(f) is tuple and f[0] == "fld" and f[2] in names)}
+
+    def container(self, out, vals, tag=None, label=WILD):
+        """a NEW container holding references to the values"""
+        c = self.fresh(out)
+        cv = Val([c], False, False, True, tag)
+        for v in vals:
+            self.store(out, cv, label, v, new_base=True)
+        return cv
+
+    def reach(self, out, vals):
+        """a variable standing for anything reachable from the values, or None when they are all plain"""
+        vs = []
+        for v in vals:
+            vs += self.srcs(out, v)
+        if not vs:
+            return None
+        t = self.tr.new()
+        out.append(["bind", t, ["reach", sorted(set(vs))]])
+        return t
+
+    def write(self, out, val: Val, deep=False):
+        """a write through `val`: its own object(s); `deep` also everything reachable (unknown callee)"""
+        if deep:
+            t = self.reach(out, [val])
+            if t is not None:
+                out.append(["write", t])
+            return
+        for v in self.srcs(out, val):
+            out.append(["write", v])
 
     # ------------------------------------------------------------------ statements
     def stable_test(self, t):
-        """a test over never-rebound parameters and constants only: has the same value wherever it is repeated"""
-        for n in ast.walk(t):
-            if isinstance(n, ast.Name):
-                if n.id not in self.stable:
-                    return False
-            elif not isinstance(n, (ast.Compare, ast.BoolOp, ast.UnaryOp, ast.Constant, ast.Is, ast.IsNot, ast.Eq, ast.NotEq,
-                                    ast.Not, ast.And, ast.Or, ast.Load)):
-                return False
-        return True
+        """a test whose outcome cannot change between two evaluations in this function: identity tests (`is`, `is not`)
+        among never-rebound parameters and constants; `==` / `!=` / truth of a never-rebound parameter annotated with an
+        immutable type (str / int / float / bool / None) against constants; `not` / `and` / `or` of those"""
+        def atom(n):
+            return isinstance(n, ast.Constant) or (isinstance(n, ast.Name) and n.id in self.stable)
 
-    def block(self, stmts, out, stack, in_loop_with_jump=False):
+        def immut(n):
+            return isinstance(n, ast.Constant) or (isinstance(n, ast.Name) and n.id in self.stable
+                                                   and self.immutable_param.get(n.id, False))
+
+        def ok(n):
+            if isinstance(n, ast.BoolOp):
+                return all(ok(v) for v in n.values)
+            if isinstance(n, ast.UnaryOp) and isinstance(n.op, ast.Not):
+                return ok(n.operand)
+            if isinstance(n, ast.Compare):
+                sides = [n.left] + list(n.comparators)
+                if all(isinstance(o, (ast.Is, ast.IsNot)) for o in n.ops):
+                    return all(atom(s) for s in sides)
+                if all(isinstance(o, (ast.Eq, ast.NotEq, ast.Lt, ast.LtE, ast.Gt, ast.GtE)) for o in n.ops):
+                    return all(immut(s) for s in sides)
+                return False
+            return immut(n) and isinstance(n, ast.Name)
+        return ok(t)
+
+    def block(self, stmts, out, stack, mode=False):
+        """mode "try": inside a `try` body (also nested): any statement may be the last one executed before a handler
+        runs, so every statement is individually skippable (the skip is an exception edge);
+        mode "loop": inside a loop body with `continue` / `break`: after a statement that contains one, the rest of the
+        block may not run"""
         for i, s in enumerate(stmts):
-            if isinstance(s, ast.If) and not in_loop_with_jump:
+            if isinstance(s, ast.If) and not mode:
                 key = ast.unparse(s.test)
                 rest = stmts[i + 1:]
                 if key not in self.known and self.stable_test(s.test) and any(
@@ -720,40 +1579,93 @@ class Scope:
                     arr0 = set(self.arr)
                     a, b = [], []
                     self.known[key] = True
-                    self.block(list(s.body) + list(rest), a, stack, in_loop_with_jump)
+                    self.block(list(s.body) + list(rest), a, stack, mode)
                     arr_a = self.arr
                     self.arr = set(arr0)
                     self.known[key] = False
-                    self.block(list(s.orelse) + list(rest), b, stack, in_loop_with_jump)
+                    self.block(list(s.orelse) + list(rest), b, stack, mode)
                     del self.known[key]
                     self.arr = arr_a & self.arr
                     out.append(["branch", ["seq", a], ["seq", b]])
                     return
-            if in_loop_with_jump:
+            if mode == "try":
                 sub = []
-                self.stmt(s, sub, stack, in_loop_with_jump)
-                out.append(["branch", ["seq", sub], ["skip"]])
+                arr0, bound0 = set(self.arr), set(self.tr.ever_bound)
+                self.stmt(s, sub, stack, mode)
+                # the statement may not have completed: a fact survives if it held before too, or is about a variable
+                # that had no binding before (then either it is still unbound or it is what this statement made it)
+                self.arr = (arr0 & self.arr) | {f for f in self.arr if (f if type(f) is int else f[1]) not in bound0}
+                out.append(["branch", ["seq", sub], ["exc"]])
             else:
-                self.stmt(s, out, stack, in_loop_with_jump)
+                self.stmt(s, out, stack, mode)
+                if mode == "loop" and i + 1 < len(stmts) and any(isinstance(n, JUMPS) for n in walk_no_nested_loops([s])):
+                    rest = []
+                    arr0 = set(self.arr)
+                    self.block(stmts[i + 1:], rest, stack, mode)
+                    self.arr = arr0 & self.arr
+                    out.append(["branch", ["seq", rest], ["skip"]])
+                    return
 
     def stmt(self, s, out, stack, jl=False):
-        if isinstance(s, (ast.Pass, ast.Break, ast.Continue, ast.Import, ast.ImportFrom, ast.Global, ast.Nonlocal)):
+        if isinstance(s, (ast.Pass, ast.Break, ast.Continue, ast.Global, ast.Nonlocal)):
+            if isinstance(s, (ast.Global, ast.Nonlocal)):
+                raise Unsupported(f"{type(s).__name__.lower()} declaration")
+            if isinstance(s, JUMPS):
+                out.append(["stop", "jump"])
+            return
+        if isinstance(s, (ast.Import, ast.ImportFrom)):
+            for a in s.names:
+                self.vars.pop((a.asname or a.name).split(".")[0], None)  # a module / imported object: not a tracked value
             return
         if isinstance(s, ast.Expr):
             self.expr(s.value, out, stack)
+        elif isinstance(s, ast.Assign) and len(s.targets) == 1 and isinstance(s.targets[0], (ast.Tuple, ast.List)) \
+                and isinstance(s.value, (ast.Tuple, ast.List)) and len(s.targets[0].elts) == len(s.value.elts) \
+                and not any(isinstance(x, ast.Starred) for x in s.targets[0].elts + s.value.elts):
+            # a, b = e1, e2: all right-hand sides first, then pairwise
+            vals = []
+            for x in s.value.elts:
+                v = self.expr(x, out, stack)
+                if v.own or v.unknown:
+                    t = self.tmp(out, v)
+                    v = Val([t], False, self.is_arr(v), self.is_cont(v), v.tag)
+                vals.append(v)
+            for t, v in zip(s.targets[0].elts, vals):
+                self.assign(t, v, out, stack)
         elif isinstance(s, ast.Assign):
             val = self.expr(s.value, out, stack)
+            if len(s.targets) > 1 or not isinstance(s.targets[0], ast.Name):
+                val = Val([self.one(out, val)], False, self.is_arr(val), self.is_cont(val), val.tag) if (val.own or val.unknown) else val
             for t in s.targets:
                 self.assign(t, val, out, stack)
         elif isinstance(s, ast.AnnAssign):
             if s.value is not None:
                 self.assign(s.target, self.expr(s.value, out, stack), out, stack)
         elif isinstance(s, ast.AugAssign):
-            self.expr(s.value, out, stack)
+            rhs = self.expr(s.value, out, stack)
             tv = self.expr(s.target, out, stack)
-            self.write(out, tv)  # in place for arrays and lists; the binding stays
+            self.write(out, tv)  # in place for arrays and lists
             if isinstance(s.target, (ast.Subscript, ast.Attribute)):
-                self.write(out, self.expr(s.target.value, out, stack))
+                base = self.expr(s.target.value, out, stack)
+                self.write(out, base)
+                if not (self.is_arr(tv) and self.is_arr(rhs)):
+                    # `o.items += xs` / `d[k] += xs`: the new value (the old one extended, or a new object built from both)
+                    # is stored back
+                    new = self.container(out, [self.elem(out, rhs, view=True), self.elem(out, tv, view=True)])
+                    lab = self.tr.label(s.target.attr) if isinstance(s.target, ast.Attribute) else WILD
+                    if not self.is_arr(base):
+                        self.store(out, base, lab, new | tv)
+            if not self.is_arr(tv) and not self.is_arr(rhs):
+                el = self.elem(out, rhs, view=True)
+                self.store(out, tv, WILD, el)  # list += iterable: the elements are kept
+                if isinstance(s.op, ast.BitOr):
+                    self.store(out, tv, WILD, self.elem(out, el, view=True))  # dict |= pairs
+            elif not self.is_arr(tv) and (rhs.own or rhs.unknown):
+                self.store(out, tv, WILD, rhs)
+            if isinstance(s.target, ast.Name) and not self.is_arr(tv) and s.target.id in self.vars:
+                # immutable left operands (tuple, str, number) are REBOUND to a new object holding both
+                new = self.container(out, [self.elem(out, rhs, view=True), self.elem(out, tv, view=True)])
+                self.bind(out, self.vars[s.target.id], new | tv, weak=True)
         elif isinstance(s, ast.Delete):
             for t in s.targets:
                 if isinstance(t, (ast.Subscript, ast.Attribute)):
@@ -761,11 +1673,17 @@ class Scope:
         elif isinstance(s, ast.Return):
             val = self.expr(s.value, out, stack) if s.value is not None else FRESH
             self.ret(val, out)
+            out.append(["stop", "ret"])
         elif isinstance(s, ast.Raise):
             if s.exc is not None:
                 self.expr(s.exc, out, stack)
+            if s.cause is not None:
+                self.expr(s.cause, out, stack)
+            out.append(["stop", "raise"])
         elif isinstance(s, ast.Assert):
             self.expr(s.test, out, stack)
+            if s.msg is not None:
+                self.expr(s.msg, out, stack)
         elif isinstance(s, ast.If) and ast.unparse(s.test) in self.known:
             self.block(s.body if self.known[ast.unparse(s.test)] else s.orelse, out, stack, jl)
         elif isinstance(s, ast.If):
@@ -783,120 +1701,156 @@ class Scope:
             arr0 = set(self.arr)
             pre = []
             it = self.expr(s.iter, pre, stack) if isinstance(s, ast.For) else None
+            if it is not None and (it.own or it.unknown):
+                it = Val([self.one(pre, it)], False, self.is_arr(it), self.is_cont(it), it.tag)
             out.extend(pre)
-            # pass 1 finds which `arr` facts survive the body, pass 2 translates under those facts only
+            # pass 1 finds which facts survive the body, pass 2 translates under those facts only
             for final in (False, True):
-                nv, diag = self.tr.nvars, list(self.tr.diag)
+                diag = list(self.tr.diag)
                 body = []
                 if isinstance(s, ast.For):
-                    self.assign(s.target, it.loaded(), body, stack)
+                    self.assign(s.target, self.elem(body, it), body, stack)
                 else:
                     self.expr(s.test, body, stack)
-                self.block(s.body, body, stack, has_jump)
+                self.block(s.body, body, stack, "try" if jl == "try" else ("loop" if has_jump else False))
                 self.arr = arr0 & self.arr
                 arr0 = set(self.arr)
                 if not final:
                     self.tr.diag = diag
             out.append(["loop", ["seq", body]])
+            if isinstance(s, ast.While):
+                self.expr(s.test, out, stack)
             self.block(s.orelse, out, stack, jl)
         elif isinstance(s, ast.With):
             for item in s.items:
                 val = self.expr(item.context_expr, out, stack)
                 if item.optional_vars is not None:
+                    if not (self.is_arr(val) or val.tag is not None or val.neutral()):
+                        val = val | self.elem(out, val, view=True)  # what `__enter__` returns: the manager or a part of it
                     self.assign(item.optional_vars, val, out, stack)
             self.block(s.body, out, stack, jl)
         elif isinstance(s, ast.Try):
             # any prefix of the body may have run when a handler starts: every statement skippable
-            arr0 = set(self.arr)
             body = []
-            self.block(s.body, body, stack, True)
-            self.arr = arr0 & self.arr
+            self.block(s.body, body, stack, "try")
             out.append(["seq", body])
+            facts_body = set(self.arr)  # hold at every point of the body where the variables concerned are bound
+            ends = []
             for h in s.handlers:
                 hb = []
+                self.arr = set(facts_body)
+                if h.type is not None:
+                    self.expr(h.type, hb, stack)
                 if h.name:
                     self.bind(hb, self.var(h.name), FRESH)
                 self.block(h.body, hb, stack, jl)
-                self.arr = arr0 & self.arr
+                ends.append(set(self.arr))
                 out.append(["branch", ["seq", hb], ["skip"]])
-            self.block(s.orelse, out, stack, jl)
+            ob = []
+            self.arr = set(facts_body)
+            self.block(s.orelse, ob, stack, "try" if s.finalbody or jl == "try" else jl)
+            out.append(["seq", ob])
+            for e_ in ends:
+                self.arr = self.arr & e_
             self.block(s.finalbody, out, stack, jl)
         elif isinstance(s, ast.FunctionDef):
             self.localfuncs[s.name] = s  # nested helper: inlined at its call sites (closure = this scope)
+            self.fn_closure[id(s)] = self
+            self.vars.pop(s.name, None)
         elif isinstance(s, ast.ClassDef):
-            self.bind(out, self.var(s.name), FRESH)
+            raise Unsupported("class definition inside a function")
         else:
-            self.tr.diag.append(f"unhandled statement {type(s).__name__} in {stack[-1]}")
-            t = self.tr.new()
-            out.append(["bind", t, ["unknown"]])
-            out.append(["write", t])
+            raise Unsupported(f"statement {type(s).__name__}")
 
     def ret(self, val: Val, out):
         if self.top:
-            for v in sorted(val.all()):
-                out.append(["ret", v])
-            if val.unknown:
-                t = self.tr.new()
-                out.append(["bind", t, ["unknown"]])
+            if self.is_arr(val):
+                for v in sorted(val.own):
+                    out.append(["ret", v])
+                return
+            t = self.reach(out, [val])  # the result and everything it holds references to
+            if t is not None:
                 out.append(["ret", t])
         else:
-            ro, rr = self.res
             self.res_arr = self.res_arr and self.is_arr(val)
-            self.bind1(out, ro, val.own | {ro}, val.unknown)
-            self.bind1(out, rr, val.reach | {rr}, val.unknown)
+            if val.unknown:
+                out.append(["bind", self.res, ["unknown"]])
+            else:
+                out.append(["bind", self.res, ["alias", sorted(val.own | {self.res})]])
+            self.res_tags.append(val.tag if (val.own or val.unknown or val.tag) else "neutral")
+            self.res_cont = self.res_cont and (self.is_cont(val) or val.neutral())
 
     def assign(self, target, val: Val, out, stack):
         if isinstance(target, ast.Name):
-            self.bind(out, self.var(target.id), val)
+            name = target.id
+            self.localfuncs.pop(name, None)  # a nested function's name rebound to a value
+            weak = name in self.weak and name in self.vars
+            self.bind(out, self.var(name), val, weak=weak)
         elif isinstance(target, (ast.Tuple, ast.List)):
             for e in target.elts:
                 if isinstance(e, ast.Starred):
-                    e = e.value
-                self.assign(e, val.loaded(), out, stack)
+                    self.assign(e.value, self.container(out, [self.elem(out, val)]), out, stack)
+                else:
+                    self.assign(e, self.elem(out, val), out, stack)
         elif isinstance(target, ast.Subscript):
             base = self.expr(target.value, out, stack)
             self.expr(target.slice, out, stack)
+            for key, fn in self.dunder_candidates(base, "__setitem__"):
+                self.inline(key[0], fn, [base, FRESH, val], {}, out, stack, cls_key=key)
             self.write(out, base)
             if not self.is_arr(base):
-                self.absorb(target.value, base, val, out)
+                self.store(out, base, WILD, val)
         elif isinstance(target, ast.Attribute):
             base = self.expr(target.value, out, stack)
             for key, fn in self.tr.prog.methods_named(target.attr):
                 if any(d.endswith(".setter") for d in decorators(fn)):
                     self.inline(key[0], fn, [base, val], {}, out, stack, cls_key=key)
             self.write(out, base)
-            if target.attr not in ("dtype", "shape"):
-                self.absorb(target.value, base, val, out)
-            if isinstance(target.value, ast.Name) and len(base.own) == 1:
-                fp = self.tr.fields.get((next(iter(base.own)), target.attr))
-                if fp is not None:
-                    self.bind(out, fp, val)
+            t_new = "arr" if (self.is_arr(val) or val.neutral()) else (val.tag if isinstance(val.tag, tuple) and val.tag[0] == "list" else None)
+            log = self.tr.field_log.setdefault(target.attr, {})
+            log[id(target)] = t_new if log.get(id(target), t_new) == t_new else None
+            if not (target.attr in ("dtype", "shape") and self.is_arr(base)):
+                self.store(out, base, self.tr.label(target.attr), val)
+                if len(base.own) == 1 and not base.unknown and self.is_arr(val):
+                    self.arr.add(("fld", next(iter(base.own)), target.attr))
         elif isinstance(target, ast.Starred):
-            self.assign(target.value, val.container(), out, stack)
+            self.assign(target.value, self.container(out, [val]), out, stack)
         else:
-            self.tr.diag.append(f"unhandled target {type(target).__name__}")
+            raise Unsupported(f"assignment target {type(target).__name__}")
 
-    def absorb(self, node, base: Val, val: Val, out):
-        """a reference to `val` is stored inside the object(s) `base`: they now reach it"""
-        stored = val.all()
-        if not (stored or val.unknown):
-            return
-        root = node
-        while isinstance(root, (ast.Attribute, ast.Subscript)):
-            root = root.value
-        reach_vars = set(base.reach)
-        if isinstance(root, ast.Name) and root.id in self.vars:
-            vo, vr = self.vars[root.id]
-            reach_vars.add(vr)
-            self.arr.discard(vo)
-        elif isinstance(root, ast.Call):
-            pass  # stored into a temporary: nothing else can observe it
-        for v in sorted(reach_vars):
-            self.bind1(out, v, stored | {v}, val.unknown)
-        # the object may also be one reached from `base.own`'s variables that we do not name: writes are
-        # tracked through `own`, references through the reach variables updated above
+    def dunder_candidates(self, base: Val, name):
+        """pewlib classes' own `__getitem__` / `__setitem__` / ... for a receiver that is not a plain array / builtin"""
+        if self.is_arr(base) or self.is_cont(base) or (base.tag is not None and not isinstance(base.tag, tuple)):
+            return []
+        if isinstance(base.tag, tuple) and base.tag[0] == "cls":
+            return self.tr.prog.overrides(base.tag[1], name)
+        if isinstance(base.tag, tuple):
+            return []
+        return self.tr.prog.methods_named(name)
 
     # ------------------------------------------------------------------ expressions
+    def global_val(self, name):
+        """a module-level name that is not a function / class / module"""
+        kind = self.tr.prog.global_kind(self.mod, name)
+        if kind == "immutable":
+            return FRESH
+        if kind == "literal":  # a dict / list / set / tuple literal of constants: part of the module's mutable state
+            return Val([self.tr.gvar], False, False, True)
+        if kind == "mutable":
+            return Val([self.tr.gvar])
+        return None
+
+    def function_value(self, node, out, stack):
+        """a lambda / local function used as a value: an object holding (references to) its free variables; calling it
+        through anything but a name that certainly holds it is an unknown call on that object"""
+        held = []
+        sc = self.fn_closure.get(id(node), self)
+        for n in sorted(free_names(node)):
+            if n in sc.vars:
+                held.append(sc.name_val(n))
+        held.append(Val([self.tr.gvar]))
+        return self.container(out, held).untagged()
+
     def expr(self, e, out, stack) -> Val:
         if e is None or isinstance(e, (ast.Constant, ast.JoinedStr, ast.FormattedValue)):
             if isinstance(e, ast.JoinedStr):
@@ -907,42 +1861,95 @@ class Scope:
         if isinstance(e, ast.Name):
             if e.id in self.vars:
                 return self.name_val(e.id)
-            return FRESH  # module-level names, builtins: constants
+            if e.id in self.localfuncs:
+                return self.function_value(self.localfuncs[e.id], out, stack)
+            if e.id in self.funcvals:
+                vals = [self.function_value(n, out, stack) for kind, n in self.funcvals[e.id] if kind == "node"]
+                return union(vals) if vals else FRESH
+            r = self.tr.prog.resolve_name(self.mod, e)
+            if r is not None and r[0] == "ext":
+                m, _, n = r[1].rpartition(".")
+                if m in self.tr.prog.mods and self.tr.prog.global_kind(m, n) in ("literal", "mutable"):
+                    return Val([self.tr.gvar])  # a module-level object of another pewlib module
+            if r is not None:
+                return FRESH  # a pewlib function / class / module or an object of another library: not data we track
+            g = self.global_val(e.id)
+            if g is not None:
+                return g
+            import builtins
+            if hasattr(builtins, e.id) or e.id in ("__name__", "__file__"):
+                return FRESH
+            self.tr.diag.append(f"unbound name {e.id} in {stack[-1]}")
+            return Val(unknown=True)
         if isinstance(e, ast.BinOp):
             l = self.expr(e.left, out, stack)
             r = self.expr(e.right, out, stack)
-            listy = (ast.List, ast.Tuple, ast.ListComp)
-            if isinstance(e.op, (ast.Add, ast.Mult)) and (isinstance(e.left, listy) or isinstance(e.right, listy)):
-                return (l | r).container() | Val((), (l | r).reach)  # list concatenation shares elements
-            return FRESH
+            if (self.is_arr(l) or l.neutral()) and (self.is_arr(r) or r.neutral()):
+                return FRESH
+            if isinstance(e.op, ast.Mod) and isinstance(e.left, (ast.Constant, ast.JoinedStr)):
+                self.stringify(r, out, stack)
+                return FRESH
+            if not isinstance(e.op, (ast.Add, ast.Mult, ast.Sub, ast.BitOr, ast.BitAnd, ast.BitXor, ast.Mod)):
+                # / // ** @ << >>: no builtin container implements them (Path / str gives a new immutable Path); arrays
+                # and numbers give new values; pewlib's classes define no operators
+                return FRESH
+            # list / tuple concatenation or repetition, set and dict operators: a new container sharing the elements
+            tag = l.tag if l.tag == r.tag or r.neutral() else (r.tag if l.neutral() else None)
+            return self.container(out, [self.elem(out, l, view=False), self.elem(out, r, view=False)],
+                                  tag=tag if isinstance(tag, tuple) and tag[0] == "list" else None)
         if isinstance(e, ast.UnaryOp):
-            self.expr(e.operand, out, stack)
-            return FRESH
+            v = self.expr(e.operand, out, stack)
+            if isinstance(e.op, ast.Not) or self.is_arr(v) or v.neutral():
+                return FRESH
+            return self.container(out, [self.elem(out, v, view=False)])
         if isinstance(e, ast.Compare):
             self.expr(e.left, out, stack)
             for c in e.comparators:
                 self.expr(c, out, stack)
             return FRESH
         if isinstance(e, ast.BoolOp):
-            val = Val(arr=True)
-            for v in e.values:
-                val = val | self.expr(v, out, stack)
-            return val
+            return union([self.expr(v, out, stack) for v in e.values])
         if isinstance(e, ast.IfExp):
             self.expr(e.test, out, stack)
-            return self.expr(e.body, out, stack) | self.expr(e.orelse, out, stack)
+            a, b = [], []
+            arr0 = set(self.arr)
+            va = self.expr(e.body, a, stack)
+            arr_a = self.arr
+            self.arr = set(arr0)
+            vb = self.expr(e.orelse, b, stack)
+            self.arr = arr_a & self.arr
+            if a or b:
+                res = self.tr.new()
+                self.bind(a, res, va)
+                fa = {f for f in self.tr.arr if f == res or (type(f) is tuple and f[1] == res)}
+                self.bind(b, res, vb)
+                fb = {f for f in self.tr.arr if f == res or (type(f) is tuple and f[1] == res)}
+                self.forget(res)
+                self.tr.arr |= fa & fb
+                out.append(["branch", ["seq", a], ["seq", b]])
+                v = va | vb
+                return Val([res], False, res in self.arr, ("cont", res) in self.arr, v.tag)
+            return va | vb
         if isinstance(e, (ast.Tuple, ast.List, ast.Set)):
-            val = Val(arr=True)
+            items, tag = [], None
             for x in e.elts:
-                val = val | self.expr(x.value if isinstance(x, ast.Starred) else x, out, stack)
-            return val.container()
+                v = self.expr(x.value if isinstance(x, ast.Starred) else x, out, stack)
+                items.append(self.elem(out, v) if isinstance(x, ast.Starred) else v)
+            tags = {v.tag for v in items if not v.neutral()}
+            if len(tags) == 1:
+                tag = container_tag(next(iter(tags)))
+            if all(self.is_arr(v) or v.neutral() for v in items):
+                tag = ("list", "arr")  # holds plain values only (dropped when anything else is stored anywhere)
+            return self.container(out, items, tag=tag)
         if isinstance(e, ast.Dict):
-            val = Val(arr=True)
+            items = []
             for k, v in zip(e.keys, e.values):
                 if k is not None:
-                    self.expr(k, out, stack)
-                val = val | self.expr(v, out, stack)
-            return val.container()
+                    items.append(self.expr(k, out, stack))
+                    items.append(self.expr(v, out, stack))
+                else:
+                    items.append(self.elem(out, self.expr(v, out, stack)))  # **mapping
+            return self.container(out, items)
         if isinstance(e, ast.Starred):
             return self.expr(e.value, out, stack)
         if isinstance(e, ast.Slice):
@@ -952,92 +1959,167 @@ class Scope:
             return FRESH
         if isinstance(e, ast.Subscript):
             d = dotted(e.value)
-            if d in ("np.r_", "np.c_", "np.s_", "np.index_exp", "np.mgrid", "np.ogrid"):
+            if d in ("np.r_", "np.c_", "np.s_", "np.index_exp", "np.mgrid", "np.ogrid") and d.split(".")[0] not in self.vars:
                 self.expr(e.slice, out, stack)
                 return FRESH
             base = self.expr(e.value, out, stack)
             self.expr(e.slice, out, stack)
+            res = FRESH
+            for key, fn in self.dunder_candidates(base, "__getitem__"):
+                res = res | self.inline(key[0], fn, [base, FRESH], {}, out, stack, cls_key=key)
             if isinstance(e.slice, ast.Slice) and isinstance(base.tag, tuple) and base.tag[0] == "list":
-                v = base.loaded()
-                return Val(v.own, v.reach, v.unknown, False, base.tag)  # a slice of a list is a list of the same items
-            return base.loaded()
+                # a slice of a list is a new list of the same items
+                return self.container(out, [self.elem(out, base, view=False)], tag=base.tag)
+            if isinstance(e.slice, ast.Slice) and not self.is_arr(base):
+                # a slice of an array is a view, of a builtin sequence a new sequence of its items
+                v = self.elem(out, base)
+                return res | v | self.container(out, [v]).untagged()
+            return res | self.elem(out, base)
         if isinstance(e, ast.Attribute):
-            d = dotted(e)
-            if d is not None and d.split(".")[0] not in self.vars:
-                return FRESH  # module attribute / constant
-            base = self.expr(e.value, out, stack)
-            if e.attr in ("shape", "ndim", "size", "dtype", "names", "itemsize", "nbytes", "name", "suffix", "stem", "parent"):
-                return FRESH
-            if base.tag in ("xml", "xmlc") and e.attr in ("tag", "text", "tail"):
-                return FRESH  # str (or None), like findtext
-            val = base.loaded()
-            if isinstance(e.value, ast.Name) and len(base.own) == 1:
-                fp = self.tr.fields.get((next(iter(base.own)), e.attr))
-                if fp is not None:
-                    val = Val([fp[0]], () if fp[0] in self.arr else [fp[1]], False, fp[0] in self.arr, self.tag_of(fp[0]))
-            cands = []
-            ftype = None
-            if isinstance(e.value, ast.Attribute) and isinstance(e.value.value, ast.Name) and self.selfvar is not None \
-                    and self.cls_key and e.value.value.id in self.vars and self.vars[e.value.value.id][0] == self.selfvar:
-                ftype = self.tr.prog.field_type(self.cls_key, e.value.attr)  # `self.<field>.<attr>` with a typed field
-            if isinstance(base.tag, tuple) and base.tag[0] == "cls" and not (self.selfvar is not None and base.own == {self.selfvar}):
-                ftype = base.tag[1]
-            if base.tag in ("xml", "xmlc", "exec", "fut"):
-                cands = []  # library objects: `tag text attrib tail` are plain attributes
-            elif self.selfvar is not None and base.own == {self.selfvar} and self.cls_key:
-                cands = [m for m in self.tr.prog.overrides(self.cls_key, e.attr) if "property" in decorators(m[1])]
-            elif ftype is not None:
-                cands = [m for m in self.tr.prog.overrides(ftype, e.attr) if "property" in decorators(m[1])]
-            else:
-                cands = [(k, fn) for k, fn in self.tr.prog.methods_named(e.attr) if "property" in decorators(fn)]
-            for key, fn in cands:
-                val = val | self.inline(key[0], fn, [base], {}, out, stack, cls_key=key)
-            return val
+            return self.attribute(e, out, stack)
         if isinstance(e, (ast.ListComp, ast.SetComp, ast.GeneratorExp, ast.DictComp)):
             return self.comprehension(e, out, stack)
         if isinstance(e, ast.Lambda):
             if id(e) in self.tr.lambda_vals:  # argument of a builtin higher-order call: applied there (see `apply_fn`)
                 return self.tr.lambda_vals[id(e)]
-            # anywhere else: whoever gets the function object may call it, any number of times, with anything
-            return self.in_loop(out, lambda body: self.lambda_body(e, Val(unknown=True), body, stack))
+            self.fn_closure.setdefault(id(e), self)
+            return self.function_value(e, out, stack)
         if isinstance(e, ast.NamedExpr):
             val = self.expr(e.value, out, stack)
             self.assign(e.target, val, out, stack)
             return val
         if isinstance(e, (ast.Yield, ast.YieldFrom)):
             val = self.expr(e.value, out, stack) if e.value is not None else FRESH
+            if isinstance(e, ast.YieldFrom):
+                val = self.elem(out, val)
             self.ret(val, out)
-            return FRESH
+            return Val(unknown=True)  # what `send` passes in
         if isinstance(e, ast.Await):
             return self.expr(e.value, out, stack)
         if isinstance(e, ast.Call):
             return self.call(e, out, stack)
-        self.tr.diag.append(f"unhandled expression {type(e).__name__}")
-        return Val(unknown=True)
+        raise Unsupported(f"expression {type(e).__name__}")
+
+    def attribute(self, e, out, stack) -> Val:
+        d = dotted(e)
+        if d is not None and d.split(".")[0] not in self.vars and d.split(".")[0] not in self.localfuncs \
+                and d.split(".")[0] not in self.funcvals:
+            head = d.split(".")[0]
+            r = self.tr.prog.resolve_name(self.mod, ast.Name(id=head))
+            g = self.global_val(head) if r is None else None
+            if g is None or g is FRESH:
+                return FRESH  # module attribute / class attribute / constant
+        base = self.expr(e.value, out, stack)
+        if e.attr in FRESH_ATTRS:
+            return FRESH
+        if e.attr in FRESH_ATTRS_OF_PLAIN and self.is_arr(base):
+            return FRESH
+        if base.tag in ("xml", "xmlc") and e.attr in ("tag", "text", "tail"):
+            return FRESH  # str (or None), like findtext
+        if self.is_arr(base):
+            return Val(base.own, False, True)  # T, real, imag, flat, ...: views
+        # a data attribute that some class of the program assigns is loaded exactly; any other name may be a bound
+        # method / a view: the receiver itself is included
+        view = e.attr in VIEW_ATTRS or not self.tr.prog.attr_assigned(e.attr)
+        is_fld_arr = len(base.own) == 1 and not base.unknown and ("fld", next(iter(base.own)), e.attr) in self.arr
+        pewlib_obj = (isinstance(base.tag, tuple) and base.tag[0] == "cls") or \
+            (self.selfvar is not None and base.own == {self.selfvar} and self.cls_key is not None)
+        if pewlib_obj:
+            if isinstance(base.tag, tuple) and base.tag[0] == "cls" and not (self.selfvar is not None and base.own == {self.selfvar}):
+                classes = self.tr.prog.subclasses(base.tag[1])
+            else:
+                classes = self.tr.prog.self_classes(self.def_cls or self.cls_key, self.fn_name) if self.fn_name else \
+                    self.tr.prog.subclasses(self.cls_key)
+            ft = self.tr.prog.plain_for(classes, e.attr)
+            if ft == "arr":
+                is_fld_arr = True
+            elif ft is not None:  # a builtin container of plain values
+                v = self.elem(out, base, self.tr.label(e.attr), view=False)
+                return Val(v.own, False, False, True, ft)
+        if is_fld_arr:
+            view = False  # a data attribute of a pewlib object
+        val = self.elem(out, base, self.tr.label(e.attr), view=view)
+        if self.tr.prog.class_level_attr(e.attr) and not is_fld_arr:
+            # may be the class's own attribute: one object shared through the module state, whoever loads it
+            g = Val([self.tr.gvar])
+            shared = self.elem(out, g, self.tr.label(e.attr), view=False)
+            self.store(out, g, self.tr.label(e.attr), shared)
+            val = val | shared
+        if is_fld_arr:
+            for v in val.own:
+                self.arr.add(v)
+            val = Val(val.own, False, True)
+        cands = []
+        ftype = None
+        if isinstance(e.value, ast.Attribute) and isinstance(e.value.value, ast.Name) and self.selfvar is not None \
+                and self.cls_key and e.value.value.id in self.vars and self.vars[e.value.value.id] == self.selfvar:
+            ftype = self.tr.prog.field_type(self.cls_key, e.value.attr)  # `self.<field>.<attr>` with a typed field
+        if isinstance(base.tag, tuple) and base.tag[0] == "cls" and not (self.selfvar is not None and base.own == {self.selfvar}):
+            ftype = base.tag[1]
+        if base.tag in ("xml", "xmlc", "exec", "fut"):
+            cands = []  # library objects: `tag text attrib tail` are plain attributes
+        elif self.selfvar is not None and base.own == {self.selfvar} and self.cls_key:
+            cands = [m for m in self.tr.prog.overrides(self.cls_key, e.attr) if "property" in decorators(m[1])]
+        elif ftype is not None:
+            cands = [m for m in self.tr.prog.overrides(ftype, e.attr) if "property" in decorators(m[1])]
+        elif self.is_cont(base):
+            cands = []
+        else:
+            cands = [(k, fn) for k, fn in self.tr.prog.methods_named(e.attr) if "property" in decorators(fn)]
+        typed = pewlib_obj or ftype is not None
+        if cands and typed and not self.tr.prog.attr_assigned(e.attr):
+            val = FRESH  # a property of the receiver's own class hierarchy, never assigned as a data attribute
+        for key, fn in cands:
+            val = val | self.inline(key[0], fn, [base], {}, out, stack, cls_key=key)
+        return val
 
     def comprehension(self, e, out, stack):
-        body = []
+        """generators are bound in order: the first iterable is evaluated outside, every later one inside the loops of
+        the earlier targets; the comprehension's variables are its own scope"""
+        acc = self.fresh(out)
+        accv = Val([acc], False, False, True)
+        saved = dict(self.vars)
+        targets = set()
         for g in e.generators:
-            it = self.expr(g.iter, out, stack)
-            self.assign(g.target, it.loaded(), body, stack)
-            for c in g.ifs:
-                self.expr(c, body, stack)
-        acc_o, acc_r = self.tr.new(), self.tr.new()
-        out.append(["bind", acc_o, ["fresh"]])
-        out.append(["bind", acc_r, ["fresh"]])
-        if isinstance(e, ast.DictComp):
-            self.expr(e.key, body, stack)
-            val = self.expr(e.value, body, stack)
-        else:
-            val = self.expr(e.elt, body, stack)
-        self.bind1(body, acc_r, val.all() | {acc_r}, val.unknown)
-        out.append(["loop", ["seq", body]])
-        return Val([acc_o], [acc_r], False, False, container_tag(val.tag))
+            targets |= {n.id for n in ast.walk(g.target) if isinstance(n, ast.Name)}
+        for n in targets:
+            self.vars.pop(n, None)
+        tags = []
+
+        def level(i, body):
+            if i == len(e.generators):
+                if isinstance(e, ast.DictComp):
+                    k = self.expr(e.key, body, stack)
+                    val = self.expr(e.value, body, stack)
+                    self.store(body, accv, WILD, k)
+                else:
+                    val = self.expr(e.elt, body, stack)
+                self.store(body, accv, WILD, val)
+                tags.append(val.tag)
+                return
+            g = e.generators[i]
+            it = self.expr(g.iter, body, stack)
+            inner = []
+
+            def make(b):
+                self.assign(g.target, self.elem(b, it), b, stack)
+                for c in g.ifs:
+                    self.expr(c, b, stack)
+                level(i + 1, b)
+                return FRESH
+            self.in_loop(body, make)
+        level(0, out)
+        for n in targets:
+            self.vars.pop(n, None)
+        for n, v in saved.items():
+            self.vars[n] = v
+        tag = container_tag(tags[-1]) if tags else None
+        return Val([acc], False, False, True, tag)
 
     # ------------------------------------------------------------------ function values
     def in_loop(self, out, make):
         """`make(body) -> Val` translated as the body of a loop (run any number of times), with the two passes over the
-        `arr`/tag facts that `for` statements use"""
+        facts that `for` statements use"""
         arr0 = set(self.arr)
         for final in (False, True):
             diag = list(self.tr.diag)
@@ -1050,28 +2132,47 @@ class Scope:
         out.append(["loop", ["seq", body]])
         return val
 
-    def lambda_body(self, lam: ast.Lambda, argval: Val, body, stack) -> Val:
-        """the lambda's expression with every parameter bound to `argval`; the value is a function object that
-        reaches whatever the expression may return (free variables are the enclosing scope's, read now)"""
+    def lambda_body(self, lam: ast.Lambda, argvals, body, stack) -> Val:
+        """the lambda's expression with its parameters bound to `argvals` (every parameter to their union when the
+        positions are not known); the value is what the expression may return"""
+        sc = self.fn_closure.get(id(lam), self)
         saved = {}
         a = lam.args
-        for x in a.posonlyargs + a.args + a.kwonlyargs + [y for y in (a.vararg, a.kwarg) if y]:
-            saved[x.arg] = self.vars.get(x.arg)
-            self.vars[x.arg] = self.tmp(body, argval)
-        for dflt in list(a.defaults) + [k for k in a.kw_defaults if k is not None]:
-            self.expr(dflt, body, stack)
-        ret = self.expr(lam.body, body, stack)
+        names = [x.arg for x in a.posonlyargs + a.args]
+        extra = [x.arg for x in a.kwonlyargs] + [y.arg for y in (a.vararg, a.kwarg) if y]
+        anyv = union(argvals)
+        dflt_of = {}
+        for x, d in zip(reversed(a.posonlyargs + a.args), reversed(a.defaults)):
+            dflt_of[x.arg] = d
+        for x, d in zip(a.kwonlyargs, a.kw_defaults):
+            if d is not None:
+                dflt_of[x.arg] = d
+        dvals = {n: self.expr(d, body, stack) for n, d in dflt_of.items()}  # evaluated in the defining scope
+        for i, n in enumerate(names + extra):
+            saved[n] = sc.vars.get(n)
+            v = argvals[i] if i < len(argvals) and i < len(names) and len(argvals) <= len(names) else anyv
+            if n in dvals and not (i < len(argvals) and i < len(names) and len(argvals) <= len(names)):
+                v = v | dvals[n]  # not (certainly) passed: the default
+            if n in (a.vararg.arg if a.vararg else None, a.kwarg.arg if a.kwarg else None):
+                v = self.container(body, [anyv])
+            sc.vars[n] = self.tmp(body, v)
+        saved_vars = self.vars
+        self.vars = sc.vars
+        try:
+            ret = self.expr(lam.body, body, stack)
+        finally:
+            self.vars = saved_vars
         for name, old in saved.items():
             if old is None:
-                del self.vars[name]
+                sc.vars.pop(name, None)
             else:
-                self.vars[name] = old
-        return Val((), ret.all(), ret.unknown, False)
+                sc.vars[name] = old
+        return ret
 
     def pure_function_value(self, node) -> bool:
         """`str.isdigit`, `int`, `len`, ...: builtins passed as functions; they write nothing and return new values"""
         d = dotted(node)
-        if d is None or d.split(".")[0] in self.vars or d.split(".")[0] in self.localfuncs:
+        if d is None or d.split(".")[0] in self.vars or d.split(".")[0] in self.localfuncs or d.split(".")[0] in self.funcvals:
             return False
         if self.tr.prog.resolve_name(self.mod, ast.Name(id=d.split(".")[0])) is not None:
             return False
@@ -1083,21 +2184,26 @@ class Scope:
         the applications may return"""
         if self.pure_function_value(fnode):
             return FRESH
+        if isinstance(fnode, ast.Constant) and fnode.value is None:  # filter(None, xs)
+            return FRESH
+
+        res = self.tr.new()
+        out.append(["bind", res, ["fresh", self.tr.site()]])
 
         def make(body):
             if isinstance(fnode, ast.Lambda):
-                elems = Val(arr=True)
-                for n in elem_nodes:
-                    elems = elems | self.expr(n, body, stack)
+                self.fn_closure.setdefault(id(fnode), self)
+                elems = [self.expr(n, body, stack) for n in elem_nodes]
                 v = self.lambda_body(fnode, elems, body, stack)
-                self.tr.lambda_vals[id(fnode)] = v
-                return Val(v.reach, v.reach, v.unknown, False)
-            res = Val(arr=True)
-            for n in elem_nodes:
-                syn = ast.copy_location(ast.Call(func=fnode, args=[n], keywords=[]), fnode)
-                res = res | self.call(syn, body, stack)
-            return res
-        return self.in_loop(out, make)
+            else:
+                syn = ast.copy_location(ast.Call(func=fnode, args=list(elem_nodes), keywords=[]), fnode)
+                v = self.call(syn, body, stack)
+            self.bind(body, res, v, weak=True)
+            return v
+        v = self.in_loop(out, make)
+        if isinstance(fnode, ast.Lambda):
+            self.tr.lambda_vals[id(fnode)] = FRESH
+        return Val([res], v.unknown, False, False, v.tag)
 
     def higher_order(self, e: ast.Call, out, stack):
         """(result of the applications | None, names of keywords that do not flow into the result)"""
@@ -1107,12 +2213,15 @@ class Scope:
             n = n.value if isinstance(n, ast.Starred) else n
             return ast.copy_location(ast.Subscript(value=n, slice=ast.Constant(0), ctx=ast.Load()), n)
         builtin = isinstance(f, ast.Name) and f.id not in self.vars and f.id not in self.localfuncs \
-            and self.tr.prog.resolve_name(self.mod, f) is None
+            and f.id not in self.funcvals and self.tr.prog.resolve_name(self.mod, f) is None
         key = next((k.value for k in e.keywords if k.arg == "key"), None)
         if builtin and f.id in HOF_KEY and key is not None:
             pos = [a.value if isinstance(a, ast.Starred) else a for a in e.args]
-            nodes = [elem(a) for a in e.args] + (pos if len(pos) > 1 else [])  # min(a, b, key=f): the arguments themselves
-            self.apply_fn(key, nodes, out, stack)
+            if len(pos) > 1:  # min(a, b, key=f): the arguments themselves
+                for p in pos:
+                    self.apply_fn(key, [p], out, stack)
+            else:
+                self.apply_fn(key, [elem(a) for a in e.args], out, stack)
             return None, {"key"}
         if isinstance(f, ast.Attribute) and f.attr == "sort" and key is not None:
             self.apply_fn(key, [elem(f.value)], out, stack)
@@ -1122,17 +2231,28 @@ class Scope:
             return (res if f.id == "map" else None), set()
         return None, set()
 
-    def call_one_of(self, keys, args, kwargs, out, stack, pairs) -> Val:
-        """a call through a name that holds one of the pewlib functions `keys`: a branch over inlining each"""
-        res = self.tmp(out, Val())
-        arr0, arrs, alts, is_arr = set(self.arr), [], [], True
-        for key in sorted(keys):
+    def call_one_of(self, fvals, args, kwargs, out, stack, arg_nodes) -> Val:
+        """a call through a name that holds one of the functions `fvals`: a branch over inlining each"""
+        res = self.tr.new()
+        out.append(["bind", res, ["fresh", self.tr.site()]])
+        arr0, arrs, alts, is_arr, rv = set(self.arr), [], [], True, FRESH
+        for kind, f in fvals:
             self.arr = set(arr0)
             b = []
-            v = self.inline(key[0], self.tr.prog.funcs[key], args, kwargs, b, stack, pairs=pairs)
-            self.bind1(b, res[0], v.own, v.unknown)
-            self.bind1(b, res[1], v.reach, v.unknown)
+            if kind == "key":
+                v = self.inline(f[0], self.tr.prog.funcs[f], args, kwargs, b, stack, arg_nodes=arg_nodes)
+            elif isinstance(f, ast.Lambda):
+                if kwargs:
+                    v = self.unknown_call("lambda with keywords", args + list(kwargs.values()), b, f)
+                else:
+                    v = self.lambda_body(f, args, b, stack)
+            else:
+                sc = self.fn_closure.get(id(f), self)
+                v = self.inline(sc.mod, f, args, kwargs, b, stack, cls_key=sc.cls_key, def_cls=sc.def_cls, closure=sc,
+                                arg_nodes=arg_nodes)
+            self.bind(b, res, v)
             is_arr = is_arr and self.is_arr(v)
+            rv = rv | v
             arrs.append(self.arr)
             alts.append(["seq", b])
         self.arr = set.intersection(*arrs)
@@ -1140,8 +2260,10 @@ class Scope:
         for alt in reversed(alts[:-1]):
             node = ["branch", alt, node]
         out.append(node)
-        return Val([res[0]], () if is_arr else [res[1]], False, is_arr)
-
+        self.forget(res)
+        if is_arr:
+            self.arr.add(res)
+        return Val([res], rv.unknown, is_arr, False, None if is_arr else rv.tag)
     # ------------------------------------------------------------------ calls
     def call(self, e: ast.Call, out, stack) -> Val:
         self._stack = stack
@@ -1152,47 +2274,50 @@ class Scope:
             v = self.expr(a, out, stack)
             if isinstance(a, ast.Starred):
                 star_from = i if star_from is None else star_from
-                v = v.loaded()
+                v = self.elem(out, v)
             args.append(v)
         if star_from is not None:  # positions are unknown from the first `*iterable` on: every later slot may get any of them
-            tail = Val(arr=True)
-            for v in args[star_from:]:
-                tail = tail | v
+            tail = union(args[star_from:])
             args = args[:star_from] + [tail] * 12
         kwargs = {}
         for k in e.keywords:
             kwargs[k.arg or "**"] = self.expr(k.value, out, stack)
-        AP = ([self.pair_of(a) for a in e.args] + [None] * 12, {(k.arg or "**"): self.pair_of(k.value) for k in e.keywords})
+        arg_nodes = ([None if isinstance(a, ast.Starred) or star_from is not None else a for a in e.args] + [None] * 12,
+                     {(k.arg or "**"): k.value for k in e.keywords})
         if "**" in kwargs:
-            kwargs["**"] = kwargs["**"].loaded()
-            AP[1].pop("**", None)
+            kwargs["**"] = self.elem(out, kwargs["**"])
+            arg_nodes[1].pop("**", None)
         allargs = args + list(kwargs.values())
-        union = Val(arr=True)
-        for a in args + [v for k, v in kwargs.items() if k not in no_flow]:
-            union = union | a
-        if hof_res is not None:
-            union = hof_res  # map(f, xs): the elements of the result are what f returns, nothing else
+        flow = args + [v for k, v in kwargs.items() if k not in no_flow]
         f = e.func
-        if "out" in kwargs:  # `out=` style keyword: the named array is written
-            self.write(out, kwargs["out"])
+        if "out" in kwargs:  # `out=` keyword: the named array (or every array of the tuple) is written
+            o = kwargs["out"]
+            self.write(out, o)
+            if not self.is_arr(o):
+                self.write(out, self.elem(out, o))
 
         d = dotted(f)
-        if isinstance(f, ast.Name) and f.id in self.localfuncs:
-            return self.inline(self.mod, self.localfuncs[f.id], args, kwargs, out, stack, cls_key=self.cls_key,
-                               def_cls=self.def_cls, closure=self, pairs=AP)
-        if isinstance(f, ast.Name) and f.id in self.funcvals:
-            return self.call_one_of(self.funcvals[f.id], args, kwargs, out, stack, AP)
+        if isinstance(f, ast.Name) and f.id in self.localfuncs and f.id not in self.vars:
+            fn = self.localfuncs[f.id]
+            sc = self.fn_closure.get(id(fn), self)
+            return self.inline(sc.mod, fn, args, kwargs, out, stack, cls_key=sc.cls_key,
+                               def_cls=sc.def_cls, closure=sc, arg_nodes=arg_nodes)
+        if isinstance(f, ast.Name) and f.id in self.funcvals and f.id not in self.localfuncs:
+            return self.call_one_of(self.funcvals[f.id], args, kwargs, out, stack, arg_nodes)
         if isinstance(f, ast.Name) and f.id == "cls" and self.cls_key:
-            return self.construct(self.cls_key, args, kwargs, out, stack, pairs=AP)
+            return self.construct_any(self.cls_key, args, kwargs, out, stack, arg_nodes)
         if isinstance(f, ast.Name) and f.id not in self.vars:
             r = self.tr.prog.resolve_name(self.mod, f)
             if r and r[0] == "func":
-                return self.inline(r[1][0], self.tr.prog.funcs[r[1]], args, kwargs, out, stack, pairs=AP)
+                return self.inline(r[1][0], self.tr.prog.funcs[r[1]], args, kwargs, out, stack, arg_nodes=arg_nodes)
             if r and r[0] == "class":
-                return self.construct(r[1], args, kwargs, out, stack, pairs=AP)
+                return self.construct(r[1], args, kwargs, out, stack, arg_nodes)
+            if r is None and self.tr.prog.global_kind(self.mod, f.id) is not None:
+                return self.unknown_call(f.id, [Val([self.tr.gvar])] + allargs, out, e)
             name = r[1] if r and r[0] == "ext" else f.id
-            return self.external(name, f.id, args, kwargs, union, out, e)
-        if d is not None and d.split(".")[0] not in self.vars:
+            return self.external(name, f.id, args, kwargs, flow, hof_res, out, e)
+        if d is not None and d.split(".")[0] not in self.vars and d.split(".")[0] not in self.localfuncs \
+                and d.split(".")[0] not in self.funcvals:
             head = d.split(".")[0]
             r = self.tr.prog.resolve_name(self.mod, ast.Name(id=head))
             if r and r[0] == "mod" and r[1].startswith("pewlib"):
@@ -1203,30 +2328,31 @@ class Scope:
                     self.tr.prog.load(mod)
                     parts = parts[1:]
                 if len(parts) == 1 and (mod, parts[0]) in self.tr.prog.funcs:
-                    return self.inline(mod, self.tr.prog.funcs[(mod, parts[0])], args, kwargs, out, stack, pairs=AP)
+                    return self.inline(mod, self.tr.prog.funcs[(mod, parts[0])], args, kwargs, out, stack, arg_nodes=arg_nodes)
                 if len(parts) == 1 and (mod, parts[0]) in self.tr.prog.classes:
-                    return self.construct((mod, parts[0]), args, kwargs, out, stack, pairs=AP)
+                    return self.construct((mod, parts[0]), args, kwargs, out, stack, arg_nodes)
                 if len(parts) == 2 and (mod, parts[0]) in self.tr.prog.classes:
-                    return self.static_method((mod, parts[0]), parts[1], args, kwargs, out, stack, union, e, pairs=AP)
+                    return self.static_method((mod, parts[0]), parts[1], args, kwargs, out, stack, e, arg_nodes)
             if r and r[0] == "class" and len(d.split(".")) == 2:
-                return self.static_method(r[1], d.split(".")[1], args, kwargs, out, stack, union, e, pairs=AP)
+                return self.static_method(r[1], d.split(".")[1], args, kwargs, out, stack, e, arg_nodes)
             parts = d.split(".")
-            if r is None and len(parts) == 2 and self.tr.prog.consts.get((self.mod, head)) and head not in self.localfuncs:
-                # a builtin method of a module-level literal (dict / list / tuple / str constant), e.g. `TABLE.items()`
-                if parts[1] in FRESH_METHODS:
-                    return FRESH
-                if parts[1] in VIEW_METHODS:
-                    return Val(union.own, union.reach, union.unknown, False)  # constants, or a default that was passed
-            full = d
-            if r and r[0] == "ext":
-                full = r[1] + d[len(head):]  # `from xml.etree import ElementTree` -> xml.etree.ElementTree.parse
-            if r and r[0] == "mod":
-                full = r[1] + d[len(head):]
-                if r[1] == "numpy":
-                    full = "np" + d[len(head):]
-                if r[1] == "numpy.lib.recfunctions":
-                    full = "np.lib.recfunctions" + d[len(head):]
-            return self.external(full, d, args, kwargs, union, out, e)
+            gk = self.tr.prog.global_kind(self.mod, head) if r is None else None
+            if gk in ("literal", "mutable") and len(parts) == 2:
+                # a method of a module-level object: handled like a method call on any other object (below)
+                pass
+            else:
+                full = d
+                if r and r[0] == "ext":
+                    full = r[1] + d[len(head):]  # `from xml.etree import ElementTree` -> xml.etree.ElementTree.parse
+                if r and r[0] == "mod":
+                    full = r[1] + d[len(head):]
+                    if r[1] == "numpy":
+                        full = "np" + d[len(head):]
+                    if r[1] == "numpy.lib.recfunctions":
+                        full = "np.lib.recfunctions" + d[len(head):]
+                    if r[1] == "numpy.lib.stride_tricks" or r[1] == "numpy.lib":
+                        full = "np.lib" + r[1][len("numpy.lib"):] + d[len(head):]
+                return self.external(full, d, args, kwargs, flow, hof_res, out, e)
 
         # ---- super().method(...)
         if isinstance(f, ast.Attribute) and isinstance(f.value, ast.Call) and isinstance(f.value.func, ast.Name) \
@@ -1234,255 +2360,497 @@ class Scope:
             m = self.tr.prog.find_method(self.cls_key, f.attr, after=self.def_cls)
             if m:
                 return self.inline(m[0][0], m[1], [self.self_val()] + args, kwargs, out, stack,
-                                   cls_key=self.cls_key, def_cls=m[0], pairs=([self.self_pair()] + AP[0], AP[1]))
-            return FRESH  # object.__init__ etc.
+                                   cls_key=self.cls_key, def_cls=m[0], arg_nodes=([None] + arg_nodes[0], arg_nodes[1]))
+            if f.attr in ("__init__", "__init_subclass__", "__post_init__"):
+                return FRESH  # object.__init__
+            return self.unknown_call(ast.unparse(f), [self.self_val()] + allargs, out, e)
 
         # ---- method call on some object
         if isinstance(f, ast.Attribute):
-            recv = self.expr(f.value, out, stack)
-            name = f.attr
-            res = Val(arr=True)
-            handled = False
-            if recv.tag in ("xml", "xmlc") and (name in XML_PART | XML_PARTS | XML_TEXT or (recv.tag == "xml" and name in XML_ATTR)):
-                part = recv.loaded()
-                if name in XML_PART:
-                    return Val(part.own, part.reach, part.unknown, False, "xml")
-                if name in XML_PARTS:
-                    return Val((), part.own | part.reach, part.unknown, False, "xmlc")
-                dflt = args[1] if len(args) > 1 else kwargs.get("default", FRESH)
-                return dflt.untagged() | FRESH  # text / attribute strings, or the default
-            if recv.tag == "exec" and name == "submit" and e.args and not isinstance(e.args[0], ast.Starred):
-                # the executor calls args[0](*args[1:], **kwargs) (now or later, on the same objects)
-                syn = ast.copy_location(ast.Call(func=e.args[0], args=list(e.args[1:]), keywords=list(e.keywords)), e)
-                v = self.call(syn, out, stack)
-                return Val((), v.all(), v.unknown, False, "fut")
-            if recv.tag == "fut" and name in ("result", "exception", "done", "cancel", "cancelled", "running"):
-                return recv.loaded().untagged()
-            on_self = self.selfvar is not None and recv.own == {self.selfvar} and self.cls_key
-            cands = []
-            if on_self:
-                cands = self.tr.prog.overrides(self.cls_key, name)
-            if not cands:
-                cands = [(k, fn) for k, fn in self.tr.prog.methods_named(name) if "property" not in decorators(fn)]
-            builtin = name in INPLACE_METHODS or name in FRESH_METHODS or name in VIEW_METHODS
-            is_cont = bool(recv.own) and all(v in self.cont for v in recv.own) and isinstance(f.value, ast.Name)
-            if isinstance(recv.tag, tuple) and recv.tag[0] == "cls" and not on_self:
-                typed = self.tr.prog.overrides(recv.tag[1], name)
-                if typed:  # a method of the receiver's class hierarchy: exactly these, whatever the name
-                    for key, fn in typed:
-                        decs = decorators(fn)
-                        a1, p1 = (args, AP) if "staticmethod" in decs else \
-                            ([FRESH if "classmethod" in decs else recv] + args,
-                             ([None if "classmethod" in decs else self.pair_of(f.value)] + AP[0], AP[1]))
-                        res = res | self.inline(key[0], fn, a1, kwargs, out, stack, cls_key=key, def_cls=key, pairs=p1)
-                    return res
-            elif recv.tag is not None and not isinstance(recv.tag, tuple):
-                cands = []  # a library object: never one of pewlib's classes
-            if cands and not (builtin and (self.is_arr(recv) or is_cont)):
-                for key, fn in cands:
-                    decs = decorators(fn)
-                    if "staticmethod" in decs:
-                        res = res | self.inline(key[0], fn, args, kwargs, out, stack, cls_key=key, pairs=AP)
-                    elif "classmethod" in decs:
-                        res = res | self.inline(key[0], fn, [FRESH] + args, kwargs, out, stack, cls_key=key,
-                                                pairs=([None] + AP[0], AP[1]))
-                    else:
-                        ck = self.cls_key if on_self else key
-                        res = res | self.inline(key[0], fn, [recv] + args, kwargs, out, stack, cls_key=ck, def_cls=key,
-                                                pairs=([self.pair_of(f.value)] + AP[0], AP[1]))
-                handled = True
-            if name in INPLACE_METHODS and not (on_self and cands):
-                self.write(out, recv)
-                if not self.is_arr(recv) and name in STORING_METHODS:
-                    self.absorb(f.value, recv, union, out)
-                res = res | recv.loaded()
-                handled = True
-            elif name == "astype" and "copy" in kwargs:
-                res = res | recv.loaded()  # astype(..., copy=False) may return the array itself
-                handled = True
-            elif name in FRESH_METHODS and not (on_self and cands):
-                res = res | FRESH
-                handled = True
-            elif name in VIEW_METHODS and not (on_self and cands):
-                res = res | recv.loaded() | union
-                handled = True
-            if handled:
-                return res
-            return self.unknown_call(ast.unparse(f), [recv] + allargs, out, e)
+            return self.method_call(e, f, args, kwargs, allargs, flow, hof_res, arg_nodes, out, stack)
         fv = self.expr(f, out, stack)
         return self.unknown_call(ast.unparse(f), [fv] + allargs, out, e)
 
-    def self_pair(self):
-        for name, (vo, vr) in self.vars.items():
-            if vo == self.selfvar:
-                return (vo, vr)
-        return None
+    def method_call(self, e, f, args, kwargs, allargs, flow, hof_res, arg_nodes, out, stack) -> Val:
+        recv = self.expr(f.value, out, stack)
+        if recv.own or recv.unknown:
+            recv = Val([self.one(out, recv)], False, self.is_arr(recv), self.is_cont(recv), recv.tag)
+        name = f.attr
+        res = FRESH
+        handled = False
+        if recv.tag in ("xml", "xmlc") and (name in XML_PART | XML_PARTS | XML_TEXT or (recv.tag == "xml" and name in XML_ATTR)):
+            part = self.elem(out, recv, view=True)
+            if name in XML_PART:
+                return Val(part.own, part.unknown, False, False, "xml")
+            if name in XML_PARTS:
+                return self.container(out, [part], tag="xmlc")
+            dflt = args[1] if len(args) > 1 else kwargs.get("default", FRESH)
+            return dflt.untagged() | FRESH  # text / attribute strings, or the default
+        if recv.tag == "exec" and name == "submit" and e.args and not isinstance(e.args[0], ast.Starred):
+            # the executor calls args[0](*args[1:], **kwargs) (now or later, on the same objects)
+            syn = ast.copy_location(ast.Call(func=e.args[0], args=list(e.args[1:]), keywords=list(e.keywords)), e)
+            v = self.call(syn, out, stack)
+            return self.container(out, [v], tag="fut")
+        if recv.tag == "exec" and name == "map" and e.args and not isinstance(e.args[0], ast.Starred):
+            def el(n):
+                n = n.value if isinstance(n, ast.Starred) else n
+                return ast.copy_location(ast.Subscript(value=n, slice=ast.Constant(0), ctx=ast.Load()), n)
+            v = self.apply_fn(e.args[0], [el(a) for a in e.args[1:]], out, stack)
+            return self.container(out, [v])
+        if recv.tag == "exec" and name in ("shutdown", "__enter__", "__exit__"):
+            return Val(recv.own, False, False, False, "exec")
+        if recv.tag == "fut" and name in ("result", "exception", "done", "cancel", "cancelled", "running"):
+            return self.elem(out, recv, view=False).untagged()
+        on_self = self.selfvar is not None and recv.own == {self.selfvar} and self.cls_key
+        cands = []
+        if on_self:
+            cands = self.tr.prog.overrides(self.cls_key, name)
+        if not cands:
+            cands = [(k, fn) for k, fn in self.tr.prog.methods_named(name) if "property" not in decorators(fn)]
+        builtin = name in INPLACE_METHODS or name in FRESH_METHODS or name in VIEW_METHODS or name in COPY_METHODS \
+            or name in ELEMENT_VIEW_METHODS or name in TUPLE_VIEW_METHODS or name in ARG_WRITING_METHODS
+        is_cont = self.is_cont(recv)
+        is_arr = self.is_arr(recv)
+        if isinstance(recv.tag, tuple) and recv.tag[0] == "cls" and not on_self:
+            typed = self.tr.prog.overrides(recv.tag[1], name)
+            if typed:  # a method of the receiver's class hierarchy: exactly these, whatever the name
+                for key, fn in typed:
+                    decs = decorators(fn)
+                    if "staticmethod" in decs:
+                        a1, n1 = args, arg_nodes
+                    else:
+                        a1 = [FRESH if "classmethod" in decs else recv] + args
+                        n1 = ([None] + arg_nodes[0], arg_nodes[1])
+                    res = res | self.inline(key[0], fn, a1, kwargs, out, stack, cls_key=key, def_cls=key, arg_nodes=n1)
+                return res
+            cands = []  # not a method of that hierarchy: an attribute holding a callable, or a builtin of a base type
+        elif recv.tag is not None and not (isinstance(recv.tag, tuple) and recv.tag[0] == "cls"):
+            cands = []  # a library object / a list: never one of pewlib's classes
+        if cands and not (builtin and (is_arr or is_cont)):
+            for key, fn in cands:
+                decs = decorators(fn)
+                if "staticmethod" in decs:
+                    res = res | self.inline(key[0], fn, args, kwargs, out, stack, cls_key=key, arg_nodes=arg_nodes)
+                elif "classmethod" in decs:
+                    res = res | self.inline(key[0], fn, [FRESH] + args, kwargs, out, stack, cls_key=key,
+                                            arg_nodes=([None] + arg_nodes[0], arg_nodes[1]))
+                else:
+                    ck = self.cls_key if on_self else key
+                    res = res | self.inline(key[0], fn, [recv] + args, kwargs, out, stack, cls_key=ck, def_cls=key,
+                                            arg_nodes=([None] + arg_nodes[0], arg_nodes[1]))
+            handled = True
+        skip_builtin = on_self and cands
+        if name in ARG_WRITING_METHODS and not skip_builtin:
+            for i in ARG_WRITING_METHODS[name]:
+                if i < len(args):
+                    self.write(out, args[i])
+            for k in ("x", "out", "buffer", "b"):
+                if k in kwargs:
+                    self.write(out, kwargs[k])
+            self.write(out, recv)  # a generator's / file's own state
+            res = res | union(flow)
+            handled = True
+        elif name in INPLACE_METHODS and not skip_builtin:
+            if not (name == "byteswap" and keyword_literal(e, "inplace") == ("absent",) and not args):
+                self.write(out, recv)
+            if not is_arr:
+                if name in STORING_SELF:
+                    self.store(out, recv, WILD, union(flow))
+                if name in STORING_ELEMS:
+                    el = self.elem(out, union(flow), view=True)
+                    self.store(out, recv, WILD, el)
+                    if name == "update":  # dict.update(pairs): the elements of the pairs
+                        self.store(out, recv, WILD, self.elem(out, el, view=True))
+            res = res | self.elem(out, recv, view=True) | (union(flow) if name == "setdefault" else FRESH)
+            handled = True
+        elif name in COPY_METHODS and not skip_builtin:
+            if name == "astype" and (keyword_literal(e, "copy") != ("absent",) or len(args) >= 5):
+                res = res | Val(recv.own, recv.unknown, is_arr)  # astype(..., copy=False) may return the array itself
+            if is_arr:
+                res = res | FRESH
+            else:  # a shallow copy: a new container of the same elements (ndarray.copy of an object array included)
+                res = res | self.container(out, [self.elem(out, recv, view=False)], tag=recv.tag if is_cont else None)
+            handled = True
+        elif name in FRESH_METHODS and not skip_builtin:
+            pos = METHOD_OUT_POS.get(name)
+            if pos is not None and not is_cont and len(args) > pos:
+                for a in args[pos:]:
+                    self.write(out, a)
+                    res = res | a
+            if not (is_arr or is_cont or recv.tag is not None) and name in ("min", "max", "sum", "item", "tolist", "index"):
+                res = res | self.elem(out, recv, view=True)  # of a non-array: an element
+            res = res | FRESH
+            handled = True
+        elif name in ELEMENT_VIEW_METHODS and not skip_builtin:
+            res = res | self.container(out, [self.elem(out, recv, view=not is_cont)])
+            handled = True
+        elif name in TUPLE_VIEW_METHODS and not skip_builtin:
+            tup = self.container(out, [self.elem(out, recv, view=not is_cont)])
+            res = res | self.container(out, [tup])
+            handled = True
+        elif name in VIEW_METHODS and not skip_builtin:
+            res = res | self.elem(out, recv, view=True) | union(flow)
+            handled = True
+        if handled:
+            return res
+        return self.unknown_call(ast.unparse(f), [recv] + allargs, out, e)
 
     def self_val(self):
-        for name, (vo, vr) in self.vars.items():
-            if vo == self.selfvar:
-                return Val([vo], [vr], False, False)
-        return Val([self.selfvar], (), False, False)
+        for name, v in self.vars.items():
+            if v == self.selfvar:
+                return self.name_val(name)
+        return Val([self.selfvar])
 
     def stringify(self, val: Val, out, stack):
         """str(x) / repr(x) / format / f"{x}": runs the class's own __str__ / __repr__ / __format__ when x is known to be
-        an instance of a pewlib class"""
-        if not (isinstance(val.tag, tuple) and val.tag[0] == "cls"):
-            return  # values of unknown class: not followed (see the trusted list of harness/c19.py)
+        an instance of a pewlib class; of any other value that is not a plain array / builtin container it is a call
+        of a method this translator does not see: an unknown call"""
+        if isinstance(val.tag, tuple) and val.tag[0] == "cls":
+            for dunder in ("__str__", "__repr__", "__format__"):
+                for key, fn in self.tr.prog.overrides(val.tag[1], dunder):
+                    self.inline(key[0], fn, [val], {}, out, stack, cls_key=key, def_cls=key)
+            return
+        if self.is_arr(val) or self.is_cont(val) or val.tag is not None or not (val.own or val.unknown):
+            return
+        if any(k[1] in ("__str__", "__repr__", "__format__") for k in stack if len(k) == 4):
+            return  # inside a __str__ already: the parts' own __str__ are not followed further (see `trusted`)
         for dunder in ("__str__", "__repr__", "__format__"):
-            for key, fn in self.tr.prog.overrides(val.tag[1], dunder):
+            for key, fn in self.tr.prog.methods_named(dunder):
                 self.inline(key[0], fn, [val], {}, out, stack, cls_key=key, def_cls=key)
 
-    def external(self, full, shown, args, kwargs, union, out, e):
+    def external(self, full, shown, args, kwargs, flow, hof_res, out, e):
+        """a call of a function that is not pewlib's: classified by the tables, else an unknown call"""
         if shown in ("str", "repr", "format", "print") and shown == full:
             for a in args:
                 self.stringify(a, out, stack=self._stack)
         cands = {full, shown}
+        if cands & REFLECTION or any(c.split(".")[0] in ("gc", "ctypes") for c in cands):
+            raise Unsupported(f"reflection ({shown}): the code that runs is not the code that is read")
         for c in list(cands):
             if c.startswith("numpy."):
                 cands.add("np." + c[len("numpy."):])
             if c.startswith("rfn."):
                 cands.add("np.lib.recfunctions." + c[len("rfn."):])
+            if c.startswith("stride_tricks."):
+                cands.add("np.lib." + c)
+        npname = next((c for c in sorted(cands) if c.startswith("np.")), None)
+        u = union(flow)
         for c in cands:
             if c in WRITE_FUNCS:
                 for i in WRITE_FUNCS[c]:
                     if i < len(args):
                         self.write(out, args[i])
+                if c in STORE_FUNCS:
+                    tgt, srcs = STORE_FUNCS[c]
+                    if tgt < len(args):
+                        self.store(out, args[tgt], WILD, union([args[i] for i in srcs if i < len(args)]))
                 return FRESH
+        if "setattr" in cands and shown == "setattr":
+            if args:
+                self.write(out, args[0])
+                self.store(out, args[0], WILD, union(args[2:] + list(kwargs.values())))
+            return FRESH
+        if "vars" in cands and shown == "vars" and not args:
+            raise Unsupported("vars() without argument: the local namespace as an object")
+        if "vars" in cands and shown == "vars" and len(args) == 1:
+            a = args[0]
+            return Val(a.own, a.unknown)  # the object's own attribute dictionary
         for c in cands:
             if c in TAGGED_FRESH_FUNCS:
                 return Val(tag=TAGGED_FRESH_FUNCS[c])
+        # positional / keyword outputs of NumPy functions (positions read from the installed library)
+        written = []
+        if npname is not None and (cands & FRESH_FUNCS or cands & VIEW_FUNCS):
+            pos = out_positions(npname)
+            if pos is None:
+                pos = list(range(1, len(args))) if len(args) > 1 else []
+                pos = [i for i in pos if args[i].own or args[i].unknown]
+            for i in pos:
+                if i < len(args) and (args[i].own or args[i].unknown):
+                    self.write(out, args[i])
+                    written.append(args[i])
+        if "out" in kwargs:
+            o = kwargs["out"]
+            written.append(o if self.is_arr(o) else self.elem(out, o, view=True))
+        if "**" in kwargs and npname is not None and accepts_out(npname):  # `**mapping` may carry `out=`
+            self.write(out, kwargs["**"])
+            written.append(kwargs["**"])
+        for c in cands:
+            kw = WRITE_IF_KEYWORD.get(c)
+            if kw and keyword_literal(e, kw) not in (("absent",), ("const", False)) and args:
+                self.write(out, args[0])
+                written.append(args[0])
+        wres = union(written)
         if cands & FRESH_FUNCS:
-            return FRESH
-        if cands & CONTAINER_FUNCS:
-            return union.container()
+            view_kw = set()
+            for c in cands:
+                view_kw |= VIEW_IF_KEYWORD.get(c, set())
+            if any(keyword_literal(e, k) != ("absent",) for k in view_kw) or \
+                    ("np.array" in cands and len(args) >= 3) or ("np.diff" in cands and len(args) >= 2):
+                v = self.elem(out, args[0] if args else u, view=True)
+                return v | wres | Val(arr=all(self.is_arr(a) for a in args[:1]))
+            if npname is not None and mentions_object_dtype(e):
+                return self.container(out, flow).untagged() | wres  # an object array holds references
+            return FRESH | wres
+        if cands & ELEMENT_CONTAINER_FUNCS or cands & TUPLE_CONTAINER_FUNCS:
+            if hof_res is not None:
+                return self.container(out, [hof_res], tag=container_tag(hof_res.tag))
+            items = [self.elem(out, a, view=True) for a in args]
+            if "itertools.chain.from_iterable" in cands:
+                items = [self.elem(out, i, view=True) for i in items]
+            if cands & {"dict", "collections.OrderedDict", "collections.defaultdict"}:
+                items += [self.elem(out, i, view=True) for i in items]  # dict(pairs): the elements of the pairs
+            items += [v for k, v in kwargs.items() if k not in ("key", "reverse", "strict", "repeat", "start")]
+            tags = {a.tag for a in args if not a.neutral()}
+            tag = next(iter(tags)) if len(tags) == 1 else None
+            ctag = tag if tag in ("xmlc", "fut") or (isinstance(tag, tuple) and tag[0] == "list") else container_tag(tag) \
+                if tag == "xml" else None
+            if cands & TUPLE_CONTAINER_FUNCS:
+                tup = self.container(out, items)
+                return self.container(out, [tup])
+            return self.container(out, items, tag=ctag)
+        if hof_res is not None and not (cands & DEEP_FUNCS):
+            return self.container(out, [hof_res], tag=container_tag(hof_res.tag))
+        if cands & DEEP_FUNCS:
+            if all(self.is_arr(a) or a.neutral() for a in flow) and not (cands & {"getattr", "next"}):
+                return Val(u.own, u.unknown, True)  # min / max / sum of plain arrays / numbers
+            t = self.reach(out, flow)
+            if t is None:
+                return FRESH
+            tv = Val([t])
+            return tv | self.container(out, [tv]).untagged()
         if cands & VIEW_FUNCS:
-            src = union if (cands & {"next", "getattr"}) or not args else args[0]
-            v = src.loaded()
-            return Val(v.own, v.reach, v.unknown, bool(args) and self.is_arr(args[0]))
+            for c in cands:
+                if c in ("np.nan_to_num",) and keyword_literal(e, "copy") != ("absent",) and args:
+                    self.write(out, args[0])  # copy=False: in place
+            if "np.nan_to_num" in cands and len(args) >= 2 and args:
+                self.write(out, args[0])
+            src = args[0] if args else u
+            if not self.is_arr(src):
+                src = src | self.elem(out, src, view=True)  # a list of arrays: (views of) its elements
+            return Val(src.own, src.unknown, self.is_arr(src)) | wres
         return self.unknown_call(full, args + list(kwargs.values()), out, e)
 
     def unknown_call(self, name, vals, out, e):
+        """FAIL-CLOSED: the callee may write everything reachable from its arguments (and from itself: a closure holds
+        its free variables), store any of it into any other of it, and return anything"""
         self.tr.diag.append(f"unknown call {name} (line {getattr(e, 'lineno', '?')} in {self.mod})")
-        for v in vals:
-            self.write(out, v, deep=True)
-        return Val(unknown=True)
+        vals = [v for v in vals if v.own or v.unknown]
+        res = self.fresh(out)
+        if vals:
+            vals = vals + [Val([self.tr.gvar])]
+            t1 = self.reach(out, vals)
+            out.append(["write", t1])
+            t2 = self.reach(out, vals)
+            # everything reachable may now hold everything reachable: through one hub object (res), so that the
+            # abstract heap grows by |t1| + |t2| edges, not |t1| * |t2|
+            out.append(["store", res, WILD, t2])
+            out.append(["store", t1, WILD, res])
+            for v in vals:
+                for x in v.own:
+                    self.arr.discard(x)
+            self.drop_field_facts(None)
+            self.drop_plain_item_tags()
+        return Val([res], unknown=bool(vals))
 
-    def static_method(self, cls_key, name, args, kwargs, out, stack, union, e, pairs=None):
+    def static_method(self, cls_key, name, args, kwargs, out, stack, e, arg_nodes=None):
         m = self.tr.prog.find_method(cls_key, name)
         if not m:
             return self.unknown_call(f"{cls_key[1]}.{name}", args + list(kwargs.values()), out, e)
         decs = decorators(m[1])
-        ap, kp = pairs if pairs is not None else ([None] * len(args), {})
+        ap, kp = arg_nodes if arg_nodes is not None else ([None] * len(args), {})
         if "classmethod" in decs:
             return self.inline(m[0][0], m[1], [FRESH] + args, kwargs, out, stack, cls_key=cls_key, def_cls=m[0],
-                               pairs=([None] + list(ap), kp))
-        return self.inline(m[0][0], m[1], args, kwargs, out, stack, cls_key=cls_key, def_cls=m[0], pairs=(ap, kp))
+                               arg_nodes=([None] + list(ap), kp))
+        return self.inline(m[0][0], m[1], args, kwargs, out, stack, cls_key=cls_key, def_cls=m[0], arg_nodes=(ap, kp))
 
-    def construct(self, cls_key, args, kwargs, out, stack, pairs=None):
-        so, sr = self.tmp(out, Val())
+    def construct_any(self, cls_key, args, kwargs, out, stack, arg_nodes=None):
+        """`cls(...)` inside a classmethod: the class is the receiver's, i.e. `cls_key` or any subclass of it"""
+        keys = [cls_key] + [k for k in self.tr.prog.subclasses(cls_key) if k != cls_key]
+        if len(keys) == 1:
+            return self.construct(cls_key, args, kwargs, out, stack, arg_nodes)
+        res = self.tr.new()
+        out.append(["bind", res, ["fresh", self.tr.site()]])
+        arr0, arrs, alts = set(self.arr), [], []
+        for k in keys:
+            self.arr = set(arr0)
+            b = []
+            v = self.construct(k, args, kwargs, b, stack, arg_nodes)
+            self.bind(b, res, v)
+            arrs.append(self.arr)
+            alts.append(["seq", b])
+        self.arr = set.intersection(*arrs)
+        node = alts[-1]
+        for alt in reversed(alts[:-1]):
+            node = ["branch", alt, node]
+        out.append(node)
+        self.forget(res)
+        self.set_tag(res, ("cls", cls_key))
+        return Val([res], False, False, False, ("cls", cls_key))
+
+    def construct(self, cls_key, args, kwargs, out, stack, arg_nodes=None):
+        so = self.fresh(out)
+        self.set_tag(so, ("cls", cls_key))
         m = self.tr.prog.find_method(cls_key, "__init__")
-        selfval = Val([so], [sr], False, False)
-        self.tr.init_fields(out, cls_key, (so, sr), fresh=True)
-        ap, kp = pairs if pairs is not None else ([None] * len(args), {})
+        selfval = Val([so], False, False, False, ("cls", cls_key))
+        ap, kp = arg_nodes if arg_nodes is not None else ([None] * len(args), {})
         if m:
             self.inline(m[0][0], m[1], [selfval] + args, kwargs, out, stack, cls_key=cls_key, def_cls=m[0],
-                        pairs=([(so, sr)] + list(ap), kp))
+                        arg_nodes=([None] + list(ap), kp))
         else:
-            u = Val(arr=True)
-            for a in args + list(kwargs.values()):
-                u = u | a
-            if u.all() or u.unknown:
-                self.bind1(out, sr, u.all() | {sr}, u.unknown)
-        return Val([so], [sr], False, False, ("cls", cls_key))
+            bases = self.tr.prog.classes[cls_key].bases
+            if args or kwargs:  # a base class that is not pewlib's (NamedTuple, dataclass, ...): keeps its arguments
+                self.store(out, selfval, WILD, union(args + list(kwargs.values())))
+                if bases and not all(isinstance(b, ast.Name) and b.id in ("object", "NamedTuple", "Enum") for b in bases):
+                    return self.unknown_call(f"{cls_key[1]}(...)", [selfval] + args + list(kwargs.values()), out, None) | selfval
+        return Val([so], False, False, False, ("cls", cls_key))
 
-    def inline(self, mod, fn, args, kwargs, out, stack, cls_key=None, def_cls=None, closure=None, pairs=None):
+    def inline(self, mod, fn, args, kwargs, out, stack, cls_key=None, def_cls=None, closure=None, arg_nodes=None):
         key = (mod, fn.name, def_cls or cls_key, fn.lineno)
         if len(stack) >= Translator.MAX_DEPTH or key in stack:
             self.tr.diag.append(f"inline limit at {fn.name}")
-            for a in args + list(kwargs.values()):
-                self.write(out, a, deep=True)
-            return Val(unknown=True)
+            return self.unknown_call(f"{fn.name} (inline limit)", args + list(kwargs.values()), out, fn)
+        if isinstance(fn, ast.FunctionDef) and unknown_decorators(fn):
+            return self.unknown_call(f"{fn.name} (decorated: {unknown_decorators(fn)})", args + list(kwargs.values()), out, fn)
         sc = Scope(self.tr, mod, cls_key)
-        if closure is not None:  # free variables of a nested function are the enclosing scope's
-            sc.vars = dict(closure.vars)
-            sc.localfuncs = dict(closure.localfuncs)
-            sc.funcvals = dict(closure.funcvals)
+        own_names = assigned_names(fn) | {n for n, _ in Translator.param_names(fn)}
+        if closure is not None:  # free variables of a nested function are the enclosing scope's (read when it runs)
+            sc.vars = {k: v for k, v in closure.vars.items() if k not in own_names}
+            sc.localfuncs = {k: v for k, v in closure.localfuncs.items() if k not in own_names}
+            sc.funcvals = {k: v for k, v in closure.funcvals.items() if k not in own_names}
+            sc.fn_closure = dict(closure.fn_closure)
             sc.selfvar = closure.selfvar
-        for k, v in self.tr.func_locals(mod, fn).items():
-            sc.funcvals[k] = v
+            sc.weak = set(closure.weak)
+        sc.setup_function(fn)
+        sc.fn_node = fn
         sc.def_cls = def_cls or cls_key
-        sc.res = (self.tr.new(), self.tr.new())
-        out.append(["bind", sc.res[0], ["fresh"]])
-        out.append(["bind", sc.res[1], ["fresh"]])
+        sc.fn_name = closure.fn_name if closure is not None else (fn.name if cls_key is not None else None)
+        sc.res = self.tr.new()
+        sc.res_tags, sc.res_cont = [], True
+        out.append(["bind", sc.res, ["fresh", self.tr.site()]])
         params = Translator.param_names(fn)
         a = fn.args
         positional = [x.arg for x in a.posonlyargs + a.args]
         kwonly = [x.arg for x in a.kwonlyargs]
         is_method = cls_key is not None and bool(positional) and positional[0] == "self" \
             and "staticmethod" not in decorators(fn)
-        extra = Val(arr=True)
+        extra = []
         bound = {}
         for i, v in enumerate(args):
             if i < len(positional):
                 bound[positional[i]] = v
             elif a.vararg or i < 12:
-                extra = extra | v
+                extra.append(v)
         for k, v in kwargs.items():
             if k in positional or k in kwonly:
                 bound[k] = v
-            else:
-                extra = extra | v
-        # by-reference passing: a plain caller variable that the callee never rebinds IS the callee's parameter
-        rebinds = {n.id for n in ast.walk(fn) if isinstance(n, ast.Name) and isinstance(n.ctx, (ast.Store, ast.Del))}
-        shared = {}
-        if pairs is not None:
-            ap, kp = pairs
-            named = [(positional[i], pr) for i, pr in enumerate(ap) if pr is not None and i < len(positional)]
-            named += [(k, pr) for k, pr in kp.items() if pr is not None and (k in positional or k in kwonly)]
-            for pname, pr in named:
+            elif k != "**":
+                extra.append(v)
+        # function values passed by name: the parameter IS one of these functions
+        if arg_nodes is not None:
+            ap, kp = arg_nodes
+            named = [(positional[i], nd) for i, nd in enumerate(ap) if nd is not None and i < len(positional)]
+            named += [(k, nd) for k, nd in kp.items() if nd is not None and (k in positional or k in kwonly)]
+            rebinds = assigned_names(fn)
+            for pname, nd in named:
                 if pname in rebinds:
                     continue
-                if pr[0] == "fn":
-                    sc.funcvals[pname] = pr[1]  # the parameter IS one of these pewlib functions
-                else:
-                    shared[pname] = pr
-        pairs = {}
-        for name, ann in params:
-            pairs[name] = shared.get(name) or (self.tr.new(), self.tr.new())
+                fv = self.function_of(nd)
+                if fv is not None:
+                    sc.funcvals[pname] = fv
+                    for kind, node in fv:
+                        if kind == "node":
+                            sc.fn_closure[id(node)] = self.fn_closure.get(id(node), self)
+        pvars = {name: self.tr.new() for name, ann in params}
         # bind all parameters from the caller's values before the callee's names shadow anything
+        defaults = {}
+        pos_defaults = a.defaults
+        for x, dflt in zip(reversed(a.posonlyargs + a.args), reversed(pos_defaults)):
+            defaults[x.arg] = dflt
+        for x, dflt in zip(a.kwonlyargs, a.kw_defaults):
+            if dflt is not None:
+                defaults[x.arg] = dflt
         for name, ann in params:
-            if name in shared:
-                continue
             if name in bound:
-                val = bound[name]
-                val = Val(val.own, val.reach, val.unknown, self.is_arr(val), val.tag)
-                sc.bind(out, pairs[name], val)
+                sc.bind(out, pvars[name], bound[name])
             elif (a.vararg and name == a.vararg.arg) or (a.kwarg and name == a.kwarg.arg):
-                sc.bind(out, pairs[name], extra.container())
+                c = self.container(out, extra + ([kwargs["**"]] if "**" in kwargs else []))
+                sc.bind(out, pvars[name], c)
             elif "**" in kwargs:
-                sc.bind(out, pairs[name], kwargs["**"])  # `**mapping`: any unbound parameter may receive any of its values
+                sc.bind(out, pvars[name], kwargs["**"] | self.default_val(mod, defaults.get(name), out, closure, stack))
             else:
-                sc.bind(out, pairs[name], FRESH)  # defaults are module-level constants
-            if name not in bound or not self.is_arr(bound[name]):
-                if ann is not None and is_array_annotation(ann) and name in bound and not bound[name].unknown \
-                        and not bound[name].reach - bound[name].own:
-                    pass
+                sc.bind(out, pvars[name], self.default_val(mod, defaults.get(name), out, closure, stack))
         for name, ann in params:
-            sc.vars[name] = pairs[name]
-            if ann is not None and is_container_annotation(ann):
-                sc.cont.add(pairs[name][0])
-            if ann is not None and is_xml_annotation(ann):
-                sc.set_tag(pairs[name][0], "xml")
-            if annotation_tag(self.tr.prog, mod, ann) and sc.tag_of(pairs[name][0]) is None:
-                sc.set_tag(pairs[name][0], annotation_tag(self.tr.prog, mod, ann))
-        sc.stable = {n for n, _ in params} - rebinds
+            sc.vars[name] = pvars[name]
+            sc.localfuncs.pop(name, None)
+            sc.annotate(pvars[name], mod, ann, is_self=False)
+            sc.immutable_param[name] = ann is not None and is_immutable_annotation(ann)
+        sc.stable = {n for n, _ in params} - assigned_names(fn)
         if is_method:
-            sc.selfvar = sc.vars[positional[0]][0]
-            self.tr.init_fields(out, def_cls or cls_key, sc.vars[positional[0]], fresh=False)
-        sc.block(fn.body, out, stack + [key])
-        rtag = None if sc.res_arr or fn.name == "__init__" else annotation_tag(self.tr.prog, mod, fn.returns)
-        return Val([sc.res[0]], [sc.res[1]], False, sc.res_arr, rtag)
+            sc.selfvar = sc.vars[positional[0]]
+        body_ir = []
+        sc.prebind_captured(fn, body_ir)
+        sc.block(fn.body, body_ir, stack + [key])
+        out.append(["scope", body_ir])
+        # facts about the fields of objects passed as exactly one variable hold for the caller's variable too
+        rb = assigned_names(fn)
+        for name, ann in params:
+            if name in bound and name not in rb and len(bound[name].own) == 1 and not bound[name].unknown:
+                x = next(iter(bound[name].own))
+                for f in list(self.tr.arr):
+                    if type(f) is tuple and f[0] == "fld" and f[1] == pvars[name]:
+                        self.tr.arr.add(("fld", x, f[2]))
+        rtag = None
+        tags = [t for t in sc.res_tags if t != "neutral"]
+        if tags and all(t == tags[0] for t in tags):
+            rtag = tags[0]
+        if rtag is None and not sc.res_arr and fn.name != "__init__":
+            rtag = annotation_tag(self.tr.prog, mod, fn.returns)
+        self.forget(sc.res)
+        if sc.res_arr:
+            self.arr.add(sc.res)
+        elif sc.res_cont and sc.res_tags:
+            self.arr.add(("cont", sc.res))
+        self.set_tag(sc.res, None if sc.res_arr else rtag)
+        return Val([sc.res], False, sc.res_arr, sc.res_cont and bool(sc.res_tags) and not sc.res_arr, rtag)
+
+    def default_val(self, mod, node, out, closure=None, stack=None):
+        """the value of a parameter default: constants, or part of the module's state (a mutable default is shared by
+        all calls); of a nested function: evaluated in the enclosing scope"""
+        if node is None or isinstance(node, ast.Constant):
+            return FRESH
+        if closure is not None:
+            return closure.expr(node, out, stack) | Val([self.tr.gvar])
+        if isinstance(node, (ast.Tuple,)) and all(isinstance(x, ast.Constant) for x in node.elts):
+            return FRESH
+        if isinstance(node, (ast.Name, ast.Attribute)):
+            d = dotted(node)
+            if d and self.tr.prog.resolve_name(mod, ast.Name(id=d.split(".")[0])) is not None:
+                return FRESH
+            if isinstance(node, ast.Name) and self.tr.prog.global_kind(mod, node.id) == "immutable":
+                return FRESH
+        if isinstance(node, (ast.UnaryOp, ast.BinOp)) and all(
+                isinstance(n, (ast.Constant, ast.UnaryOp, ast.BinOp, ast.operator, ast.unaryop, ast.Attribute, ast.Name, ast.Load))
+                for n in ast.walk(node)):
+            return FRESH
+        return Val([self.tr.gvar])
+
+    def function_of(self, node):
+        """function values an argument expression certainly denotes, or None"""
+        if isinstance(node, ast.Lambda):
+            self.fn_closure.setdefault(id(node), self)
+            return (("node", node),)
+        if isinstance(node, ast.Name):
+            if node.id in self.vars:
+                return None
+            if node.id in self.localfuncs:
+                return (("node", self.localfuncs[node.id]),)
+            if node.id in self.funcvals:
+                return self.funcvals[node.id]
+            r = self.tr.prog.resolve_name(self.mod, node)
+            if r and r[0] == "func":
+                return (("key", r[1]),)
+        return None
 
 
 def walk_no_nested_loops(stmts):
@@ -1507,10 +2875,10 @@ INVENTORY_MODULES = [
 ]
 
 
-def inventory(prog: Program):
+def inventory(prog: Program, modules=None):
     """every public function and method of the inventoried modules: (qualified name, module, fn, cls_key, constructor)"""
     out = []
-    for mod in INVENTORY_MODULES:
+    for mod in (INVENTORY_MODULES if modules is None else modules):
         tree = prog.mods.get(mod)
         if tree is None:
             continue
@@ -1533,11 +2901,12 @@ def inventory(prog: Program):
     return out
 
 
-def translate_all(repo: Path):
-    prog = Program(repo, INVENTORY_MODULES)
+def translate_all(repo: Path, modules=None, src="src"):
+    prog = Program(repo, INVENTORY_MODULES if modules is None else modules, src)
     tr = Translator(prog)
+    tr.infer_plain_fields()
     res = []
-    for qual, mod, fn, cls_key, ctor in inventory(prog):
+    for qual, mod, fn, cls_key, ctor in inventory(prog, modules):
         sc_np, pnames, ir = tr.translate(mod, fn, cls_key, ctor)
         res.append({"name": qual, "np": sc_np, "params": pnames, "ir": ir, "diag": list(tr.diag),
                     "kind": "constructor" if ctor else ("method" if cls_key else "function")})
